@@ -7,50 +7,50 @@ open ImathVerif
 
 /-- extracted from the C++ template at T = Sym; 1 path(s) -/
 def Euler.M44_setEulerAngles {α : Type} [Add α] [Mul α] [Neg α] [OfNat α 0] [OfNat α 1] (sin : α → α) (cos : α → α) (r : V3 α) : (M44 α) :=
-  let t8608 := (cos r.z)
-  let t8609 := (cos r.y)
-  let t8610 := (cos r.x)
-  let t8611 := (sin r.z)
-  let t8612 := (sin r.y)
-  let t8613 := (sin r.x)
-  let t8617 := (t8608 * t8612)
-  let t8622 := (t8611 * t8612)
-  ⟨(t8608 * t8609), (t8611 * t8609), (-t8612), (0 : α), (((-t8611) * t8610) + (t8617 * t8613)), ((t8608 * t8610) + (t8622 * t8613)), (t8609 * t8613), (0 : α), ((t8611 * t8613) + (t8617 * t8610)), (((-t8608) * t8613) + (t8622 * t8610)), (t8609 * t8610), (0 : α), (0 : α), (0 : α), (0 : α), (1 : α)⟩
+  let t8671 := (cos r.z)
+  let t8672 := (cos r.y)
+  let t8673 := (cos r.x)
+  let t8674 := (sin r.z)
+  let t8675 := (sin r.y)
+  let t8676 := (sin r.x)
+  let t8680 := (t8671 * t8675)
+  let t8685 := (t8674 * t8675)
+  ⟨(t8671 * t8672), (t8674 * t8672), (-t8675), (0 : α), (((-t8674) * t8673) + (t8680 * t8676)), ((t8671 * t8673) + (t8685 * t8676)), (t8672 * t8676), (0 : α), ((t8674 * t8676) + (t8680 * t8673)), (((-t8671) * t8676) + (t8685 * t8673)), (t8672 * t8673), (0 : α), (0 : α), (0 : α), (0 : α), (1 : α)⟩
 
 /-- extracted from the C++ template at T = Sym; 1 path(s) -/
 def Euler.M44_rotate {α : Type} [Add α] [Mul α] [Neg α] (sin : α → α) (cos : α → α) (m : M44 α) (r : V3 α) : (M44 α) :=
-  let t8608 := (cos r.z)
-  let t8609 := (cos r.y)
-  let t8610 := (cos r.x)
-  let t8611 := (sin r.z)
-  let t8612 := (sin r.y)
-  let t8613 := (sin r.x)
-  let t8614 := (t8608 * t8609)
-  let t8615 := (t8611 * t8609)
-  let t8616 := (-t8612)
-  let t8617 := (t8608 * t8612)
-  let t8619 := (-t8611)
-  let t8621 := ((t8619 * t8610) + (t8617 * t8613))
-  let t8622 := (t8611 * t8612)
-  let t8625 := ((t8608 * t8610) + (t8622 * t8613))
-  let t8626 := (t8609 * t8613)
-  let t8634 := (t8609 * t8610)
-  let t8635 := (-t8613)
-  let t8637 := ((t8619 * t8635) + (t8617 * t8610))
-  let t8639 := ((t8608 * t8635) + (t8622 * t8610))
-  ⟨(((m.x00 * t8614) + (m.x10 * t8615)) + (m.x20 * t8616)), (((m.x01 * t8614) + (m.x11 * t8615)) + (m.x21 * t8616)), (((m.x02 * t8614) + (m.x12 * t8615)) + (m.x22 * t8616)), (((m.x03 * t8614) + (m.x13 * t8615)) + (m.x23 * t8616)), (((m.x00 * t8621) + (m.x10 * t8625)) + (m.x20 * t8626)), (((m.x01 * t8621) + (m.x11 * t8625)) + (m.x21 * t8626)), (((m.x02 * t8621) + (m.x12 * t8625)) + (m.x22 * t8626)), (((m.x03 * t8621) + (m.x13 * t8625)) + (m.x23 * t8626)), (((m.x00 * t8637) + (m.x10 * t8639)) + (m.x20 * t8634)), (((m.x01 * t8637) + (m.x11 * t8639)) + (m.x21 * t8634)), (((m.x02 * t8637) + (m.x12 * t8639)) + (m.x22 * t8634)), (((m.x03 * t8637) + (m.x13 * t8639)) + (m.x23 * t8634)), m.x30, m.x31, m.x32, m.x33⟩
+  let t8671 := (cos r.z)
+  let t8672 := (cos r.y)
+  let t8673 := (cos r.x)
+  let t8674 := (sin r.z)
+  let t8675 := (sin r.y)
+  let t8676 := (sin r.x)
+  let t8677 := (t8671 * t8672)
+  let t8678 := (t8674 * t8672)
+  let t8679 := (-t8675)
+  let t8680 := (t8671 * t8675)
+  let t8682 := (-t8674)
+  let t8684 := ((t8682 * t8673) + (t8680 * t8676))
+  let t8685 := (t8674 * t8675)
+  let t8688 := ((t8671 * t8673) + (t8685 * t8676))
+  let t8689 := (t8672 * t8676)
+  let t8697 := (t8672 * t8673)
+  let t8698 := (-t8676)
+  let t8700 := ((t8682 * t8698) + (t8680 * t8673))
+  let t8702 := ((t8671 * t8698) + (t8685 * t8673))
+  ⟨(((m.x00 * t8677) + (m.x10 * t8678)) + (m.x20 * t8679)), (((m.x01 * t8677) + (m.x11 * t8678)) + (m.x21 * t8679)), (((m.x02 * t8677) + (m.x12 * t8678)) + (m.x22 * t8679)), (((m.x03 * t8677) + (m.x13 * t8678)) + (m.x23 * t8679)), (((m.x00 * t8684) + (m.x10 * t8688)) + (m.x20 * t8689)), (((m.x01 * t8684) + (m.x11 * t8688)) + (m.x21 * t8689)), (((m.x02 * t8684) + (m.x12 * t8688)) + (m.x22 * t8689)), (((m.x03 * t8684) + (m.x13 * t8688)) + (m.x23 * t8689)), (((m.x00 * t8700) + (m.x10 * t8702)) + (m.x20 * t8697)), (((m.x01 * t8700) + (m.x11 * t8702)) + (m.x21 * t8697)), (((m.x02 * t8700) + (m.x12 * t8702)) + (m.x22 * t8697)), (((m.x03 * t8700) + (m.x13 * t8702)) + (m.x23 * t8697)), m.x30, m.x31, m.x32, m.x33⟩
 
 /-- extracted from the C++ template at T = Sym; 1 path(s) -/
 def Euler.M33_setRotation {α : Type} [Neg α] [OfNat α 0] [OfNat α 1] (sin : α → α) (cos : α → α) (r : α) : (M33 α) :=
-  let t8701 := (cos r)
-  let t8702 := (sin r)
-  ⟨t8701, t8702, (0 : α), (-t8702), t8701, (0 : α), (0 : α), (0 : α), (1 : α)⟩
+  let t8764 := (cos r)
+  let t8765 := (sin r)
+  ⟨t8764, t8765, (0 : α), (-t8765), t8764, (0 : α), (0 : α), (0 : α), (1 : α)⟩
 
 /-- extracted from the C++ template at T = Sym; 1 path(s) -/
 def Euler.M22_setRotation {α : Type} [Neg α] (sin : α → α) (cos : α → α) (r : α) : (M22 α) :=
-  let t8701 := (cos r)
-  let t8702 := (sin r)
-  ⟨t8701, t8702, (-t8702), t8701⟩
+  let t8764 := (cos r)
+  let t8765 := (sin r)
+  ⟨t8764, t8765, (-t8765), t8764⟩
 
 /-- extracted from the C++ template at T = Sym; 1 path(s) -/
 def Euler.Quat_toMatrix33 {α : Type} [Add α] [Sub α] [Mul α] [OfNat α 1] [OfNat α 2] (q : Quat α) : (M33 α) :=
@@ -128,128 +128,128 @@ def Euler.extractEulerXYZ {α : Type} [Add α] [Mul α] [Div α] [Neg α] [LT α
   let t156 := (t110 * m.x10)
   let t161 := (t113 * m.x21)
   let t162 := (t110 * m.x11)
-  let t8704 := (V3.length tmin sqrt ⟨m.x00, m.x01, m.x02⟩)
-  let t8705 := (V3.length tmin sqrt ⟨m.x10, m.x11, m.x12⟩)
-  let t8706 := (V3.length tmin sqrt ⟨m.x20, m.x21, m.x22⟩)
-  let t8707 := (m.x20 / t8706)
-  let t8708 := (m.x21 / t8706)
-  let t8709 := (m.x22 / t8706)
-  let t8710 := (atan2 m.x12 t8709)
-  let t8711 := (-t8710)
-  let t8712 := (cos t8711)
-  let t8713 := (sin t8711)
-  let t8716 := ((t72 * t8712) + (t73 * t8713))
-  let t8719 := ((t66 * t8712) + (t77 * t8713))
-  let t8720 := (t66 * t8713)
-  let t8728 := ((0 : α) * t8720)
-  let t8729 := ((0 : α) * t8719)
-  let t8732 := ((((1 : α) * t8716) + t8729) + t8728)
-  let t8734 := ((0 : α) * t8716)
-  let t8736 := ((t8734 + ((1 : α) * t8719)) + t8728)
-  let t8738 := (t8734 + t8729)
-  let t8739 := (t8738 + ((1 : α) * t8720))
-  let t8754 := (t100 * t8707)
-  let t8756 := ((t132 + t8754) + t128)
-  let t8757 := (t100 * t8708)
-  let t8759 := ((t138 + t8757) + t128)
-  let t8760 := (t100 * t8709)
-  let t8763 := ((t8738 + t8728) * (0 : α))
-  let t8764 := (t8739 * t8707)
-  let t8765 := (t8736 * m.x10)
-  let t8770 := (t8739 * t8708)
-  let t8771 := (t8736 * m.x11)
-  let t8832 := (m.x10 / t8705)
-  let t8833 := (m.x11 / t8705)
-  let t8834 := (m.x12 / t8705)
-  let t8835 := (atan2 t8834 m.x22)
-  let t8836 := (-t8835)
-  let t8837 := (cos t8836)
-  let t8838 := (sin t8836)
-  let t8841 := ((t72 * t8837) + (t73 * t8838))
-  let t8844 := ((t66 * t8837) + (t77 * t8838))
-  let t8845 := (t66 * t8838)
-  let t8853 := ((0 : α) * t8845)
-  let t8854 := ((0 : α) * t8844)
-  let t8857 := ((((1 : α) * t8841) + t8854) + t8853)
-  let t8859 := ((0 : α) * t8841)
-  let t8861 := ((t8859 + ((1 : α) * t8844)) + t8853)
-  let t8863 := (t8859 + t8854)
-  let t8864 := (t8863 + ((1 : α) * t8845))
-  let t8879 := (t97 * t8832)
-  let t8880 := (t131 + t8879)
-  let t8882 := ((t8880 + t129) + t128)
-  let t8883 := (t97 * t8833)
-  let t8884 := (t137 + t8883)
-  let t8886 := ((t8884 + t135) + t128)
-  let t8887 := (t97 * t8834)
-  let t8888 := (t143 + t8887)
-  let t8891 := ((t8863 + t8853) * (0 : α))
-  let t8892 := (t8864 * m.x20)
-  let t8893 := (t8861 * t8832)
-  let t8898 := (t8864 * m.x21)
-  let t8899 := (t8861 * t8833)
-  let t8963 := (atan2 t8834 t8709)
-  let t8964 := (-t8963)
-  let t8965 := (cos t8964)
-  let t8966 := (sin t8964)
-  let t8969 := ((t72 * t8965) + (t73 * t8966))
-  let t8972 := ((t66 * t8965) + (t77 * t8966))
-  let t8973 := (t66 * t8966)
-  let t8981 := ((0 : α) * t8973)
-  let t8982 := ((0 : α) * t8972)
-  let t8985 := ((((1 : α) * t8969) + t8982) + t8981)
-  let t8987 := ((0 : α) * t8969)
-  let t8989 := ((t8987 + ((1 : α) * t8972)) + t8981)
-  let t8991 := (t8987 + t8982)
-  let t8992 := (t8991 + ((1 : α) * t8973))
-  let t9008 := ((t8880 + t8754) + t128)
-  let t9010 := ((t8884 + t8757) + t128)
-  let t9013 := ((t8991 + t8981) * (0 : α))
-  let t9014 := (t8992 * t8707)
-  let t9015 := (t8989 * t8832)
-  let t9020 := (t8992 * t8708)
-  let t9021 := (t8989 * t8833)
-  let t9079 := (m.x00 / t8704)
-  let t9080 := (m.x01 / t8704)
-  let t9082 := (t93 * t9079)
-  let t9083 := (t9082 + t130)
-  let t9085 := ((t9083 + t129) + t128)
-  let t9086 := (t93 * t9080)
-  let t9087 := (t9086 + t136)
-  let t9089 := ((t9087 + t135) + t128)
-  let t9090 := (t93 * (m.x02 / t8704))
-  let t9091 := (t9090 + t142)
-  let t9139 := ((t9083 + t8754) + t128)
-  let t9141 := ((t9087 + t8757) + t128)
-  let t9182 := (t9082 + t8879)
-  let t9184 := ((t9182 + t129) + t128)
-  let t9185 := (t9086 + t8883)
-  let t9187 := ((t9185 + t135) + t128)
-  let t9188 := (t9090 + t8887)
-  let t9233 := ((t9182 + t8754) + t128)
-  let t9235 := ((t9185 + t8757) + t128)
-  if t8704 = (0 : α) then
-    if t8705 = (0 : α) then
-      if t8706 = (0 : α) then
+  let t8767 := (V3.length tmin sqrt ⟨m.x00, m.x01, m.x02⟩)
+  let t8768 := (V3.length tmin sqrt ⟨m.x10, m.x11, m.x12⟩)
+  let t8769 := (V3.length tmin sqrt ⟨m.x20, m.x21, m.x22⟩)
+  let t8770 := (m.x20 / t8769)
+  let t8771 := (m.x21 / t8769)
+  let t8772 := (m.x22 / t8769)
+  let t8773 := (atan2 m.x12 t8772)
+  let t8774 := (-t8773)
+  let t8775 := (cos t8774)
+  let t8776 := (sin t8774)
+  let t8779 := ((t72 * t8775) + (t73 * t8776))
+  let t8782 := ((t66 * t8775) + (t77 * t8776))
+  let t8783 := (t66 * t8776)
+  let t8791 := ((0 : α) * t8783)
+  let t8792 := ((0 : α) * t8782)
+  let t8795 := ((((1 : α) * t8779) + t8792) + t8791)
+  let t8797 := ((0 : α) * t8779)
+  let t8799 := ((t8797 + ((1 : α) * t8782)) + t8791)
+  let t8801 := (t8797 + t8792)
+  let t8802 := (t8801 + ((1 : α) * t8783))
+  let t8817 := (t100 * t8770)
+  let t8819 := ((t132 + t8817) + t128)
+  let t8820 := (t100 * t8771)
+  let t8822 := ((t138 + t8820) + t128)
+  let t8823 := (t100 * t8772)
+  let t8826 := ((t8801 + t8791) * (0 : α))
+  let t8827 := (t8802 * t8770)
+  let t8828 := (t8799 * m.x10)
+  let t8833 := (t8802 * t8771)
+  let t8834 := (t8799 * m.x11)
+  let t8895 := (m.x10 / t8768)
+  let t8896 := (m.x11 / t8768)
+  let t8897 := (m.x12 / t8768)
+  let t8898 := (atan2 t8897 m.x22)
+  let t8899 := (-t8898)
+  let t8900 := (cos t8899)
+  let t8901 := (sin t8899)
+  let t8904 := ((t72 * t8900) + (t73 * t8901))
+  let t8907 := ((t66 * t8900) + (t77 * t8901))
+  let t8908 := (t66 * t8901)
+  let t8916 := ((0 : α) * t8908)
+  let t8917 := ((0 : α) * t8907)
+  let t8920 := ((((1 : α) * t8904) + t8917) + t8916)
+  let t8922 := ((0 : α) * t8904)
+  let t8924 := ((t8922 + ((1 : α) * t8907)) + t8916)
+  let t8926 := (t8922 + t8917)
+  let t8927 := (t8926 + ((1 : α) * t8908))
+  let t8942 := (t97 * t8895)
+  let t8943 := (t131 + t8942)
+  let t8945 := ((t8943 + t129) + t128)
+  let t8946 := (t97 * t8896)
+  let t8947 := (t137 + t8946)
+  let t8949 := ((t8947 + t135) + t128)
+  let t8950 := (t97 * t8897)
+  let t8951 := (t143 + t8950)
+  let t8954 := ((t8926 + t8916) * (0 : α))
+  let t8955 := (t8927 * m.x20)
+  let t8956 := (t8924 * t8895)
+  let t8961 := (t8927 * m.x21)
+  let t8962 := (t8924 * t8896)
+  let t9026 := (atan2 t8897 t8772)
+  let t9027 := (-t9026)
+  let t9028 := (cos t9027)
+  let t9029 := (sin t9027)
+  let t9032 := ((t72 * t9028) + (t73 * t9029))
+  let t9035 := ((t66 * t9028) + (t77 * t9029))
+  let t9036 := (t66 * t9029)
+  let t9044 := ((0 : α) * t9036)
+  let t9045 := ((0 : α) * t9035)
+  let t9048 := ((((1 : α) * t9032) + t9045) + t9044)
+  let t9050 := ((0 : α) * t9032)
+  let t9052 := ((t9050 + ((1 : α) * t9035)) + t9044)
+  let t9054 := (t9050 + t9045)
+  let t9055 := (t9054 + ((1 : α) * t9036))
+  let t9071 := ((t8943 + t8817) + t128)
+  let t9073 := ((t8947 + t8820) + t128)
+  let t9076 := ((t9054 + t9044) * (0 : α))
+  let t9077 := (t9055 * t8770)
+  let t9078 := (t9052 * t8895)
+  let t9083 := (t9055 * t8771)
+  let t9084 := (t9052 * t8896)
+  let t9142 := (m.x00 / t8767)
+  let t9143 := (m.x01 / t8767)
+  let t9145 := (t93 * t9142)
+  let t9146 := (t9145 + t130)
+  let t9148 := ((t9146 + t129) + t128)
+  let t9149 := (t93 * t9143)
+  let t9150 := (t9149 + t136)
+  let t9152 := ((t9150 + t135) + t128)
+  let t9153 := (t93 * (m.x02 / t8767))
+  let t9154 := (t9153 + t142)
+  let t9202 := ((t9146 + t8817) + t128)
+  let t9204 := ((t9150 + t8820) + t128)
+  let t9245 := (t9145 + t8942)
+  let t9247 := ((t9245 + t129) + t128)
+  let t9248 := (t9149 + t8946)
+  let t9250 := ((t9248 + t135) + t128)
+  let t9251 := (t9153 + t8950)
+  let t9296 := ((t9245 + t8817) + t128)
+  let t9298 := ((t9248 + t8820) + t128)
+  if t8767 = (0 : α) then
+    if t8768 = (0 : α) then
+      if t8769 = (0 : α) then
         ⟨t64, (atan2 (-((t144 + t141) + t128)) (sqrt ((t134 * t134) + (t140 * t140)))), (atan2 (-((((t106 * m.x00) + t156) + t155) + t154)) ((((t106 * m.x01) + t162) + t161) + t154))⟩
       else
-        ⟨t8710, (atan2 (-((t144 + t8760) + t128)) (sqrt ((t8756 * t8756) + (t8759 * t8759)))), (atan2 (-((((t8732 * m.x00) + t8765) + t8764) + t8763)) ((((t8732 * m.x01) + t8771) + t8770) + t8763))⟩
+        ⟨t8773, (atan2 (-((t144 + t8823) + t128)) (sqrt ((t8819 * t8819) + (t8822 * t8822)))), (atan2 (-((((t8795 * m.x00) + t8828) + t8827) + t8826)) ((((t8795 * m.x01) + t8834) + t8833) + t8826))⟩
     else
-      if t8706 = (0 : α) then
-        ⟨t8835, (atan2 (-((t8888 + t141) + t128)) (sqrt ((t8882 * t8882) + (t8886 * t8886)))), (atan2 (-((((t8857 * m.x00) + t8893) + t8892) + t8891)) ((((t8857 * m.x01) + t8899) + t8898) + t8891))⟩
+      if t8769 = (0 : α) then
+        ⟨t8898, (atan2 (-((t8951 + t141) + t128)) (sqrt ((t8945 * t8945) + (t8949 * t8949)))), (atan2 (-((((t8920 * m.x00) + t8956) + t8955) + t8954)) ((((t8920 * m.x01) + t8962) + t8961) + t8954))⟩
       else
-        ⟨t8963, (atan2 (-((t8888 + t8760) + t128)) (sqrt ((t9008 * t9008) + (t9010 * t9010)))), (atan2 (-((((t8985 * m.x00) + t9015) + t9014) + t9013)) ((((t8985 * m.x01) + t9021) + t9020) + t9013))⟩
+        ⟨t9026, (atan2 (-((t8951 + t8823) + t128)) (sqrt ((t9071 * t9071) + (t9073 * t9073)))), (atan2 (-((((t9048 * m.x00) + t9078) + t9077) + t9076)) ((((t9048 * m.x01) + t9084) + t9083) + t9076))⟩
   else
-    if t8705 = (0 : α) then
-      if t8706 = (0 : α) then
-        ⟨t64, (atan2 (-((t9091 + t141) + t128)) (sqrt ((t9085 * t9085) + (t9089 * t9089)))), (atan2 (-((((t106 * t9079) + t156) + t155) + t154)) ((((t106 * t9080) + t162) + t161) + t154))⟩
+    if t8768 = (0 : α) then
+      if t8769 = (0 : α) then
+        ⟨t64, (atan2 (-((t9154 + t141) + t128)) (sqrt ((t9148 * t9148) + (t9152 * t9152)))), (atan2 (-((((t106 * t9142) + t156) + t155) + t154)) ((((t106 * t9143) + t162) + t161) + t154))⟩
       else
-        ⟨t8710, (atan2 (-((t9091 + t8760) + t128)) (sqrt ((t9139 * t9139) + (t9141 * t9141)))), (atan2 (-((((t8732 * t9079) + t8765) + t8764) + t8763)) ((((t8732 * t9080) + t8771) + t8770) + t8763))⟩
+        ⟨t8773, (atan2 (-((t9154 + t8823) + t128)) (sqrt ((t9202 * t9202) + (t9204 * t9204)))), (atan2 (-((((t8795 * t9142) + t8828) + t8827) + t8826)) ((((t8795 * t9143) + t8834) + t8833) + t8826))⟩
     else
-      if t8706 = (0 : α) then
-        ⟨t8835, (atan2 (-((t9188 + t141) + t128)) (sqrt ((t9184 * t9184) + (t9187 * t9187)))), (atan2 (-((((t8857 * t9079) + t8893) + t8892) + t8891)) ((((t8857 * t9080) + t8899) + t8898) + t8891))⟩
+      if t8769 = (0 : α) then
+        ⟨t8898, (atan2 (-((t9251 + t141) + t128)) (sqrt ((t9247 * t9247) + (t9250 * t9250)))), (atan2 (-((((t8920 * t9142) + t8956) + t8955) + t8954)) ((((t8920 * t9143) + t8962) + t8961) + t8954))⟩
       else
-        ⟨t8963, (atan2 (-((t9188 + t8760) + t128)) (sqrt ((t9233 * t9233) + (t9235 * t9235)))), (atan2 (-((((t8985 * t9079) + t9015) + t9014) + t9013)) ((((t8985 * t9080) + t9021) + t9020) + t9013))⟩
+        ⟨t9026, (atan2 (-((t9251 + t8823) + t128)) (sqrt ((t9296 * t9296) + (t9298 * t9298)))), (atan2 (-((((t9048 * t9142) + t9078) + t9077) + t9076)) ((((t9048 * t9143) + t9084) + t9083) + t9076))⟩
 
 /-- extracted from the C++ template at T = Sym; 8 path(s) -/
 def Euler.extractEulerZYX {α : Type} [Add α] [Mul α] [Div α] [Neg α] [LT α] [LE α] [DecidableLT α] [DecidableLE α] [DecidableEq α] [OfNat α 0] [OfNat α 1] [OfNat α 2] (tmin : α) (sqrt : α → α) (sin : α → α) (cos : α → α) (atan2 : α → α → α) (m : M44 α) : (V3 α) :=
@@ -260,212 +260,212 @@ def Euler.extractEulerZYX {α : Type} [Add α] [Mul α] [Div α] [Neg α] [LT α
   let t73 := (t66 * t68)
   let t91 := ((1 : α) * t70)
   let t95 := ((0 : α) * t70)
-  let t2420 := ((0 : α) * t73)
-  let t2429 := ((1 : α) * t73)
-  let t8704 := (V3.length tmin sqrt ⟨m.x00, m.x01, m.x02⟩)
-  let t8705 := (V3.length tmin sqrt ⟨m.x10, m.x11, m.x12⟩)
-  let t8706 := (V3.length tmin sqrt ⟨m.x20, m.x21, m.x22⟩)
-  let t8707 := (m.x20 / t8706)
-  let t8708 := (m.x21 / t8706)
-  let t8709 := (m.x22 / t8706)
-  let t8832 := (m.x10 / t8705)
-  let t8833 := (m.x11 / t8705)
-  let t8834 := (m.x12 / t8705)
-  let t9079 := (m.x00 / t8704)
-  let t9080 := (m.x01 / t8704)
-  let t9081 := (m.x02 / t8704)
-  let t9276 := (-(atan2 m.x10 m.x00))
-  let t9277 := (-t9276)
-  let t9278 := (cos t9277)
-  let t9279 := (sin t9277)
-  let t9282 := (t9278 * t68)
-  let t9284 := (-t9279)
-  let t9286 := ((t9284 * t66) + (t9282 * t68))
-  let t9287 := (t9279 * t68)
-  let t9289 := ((t9278 * t66) + (t9287 * t68))
-  let t9292 := ((t9284 * t72) + (t9282 * t66))
-  let t9295 := ((t9278 * t72) + (t9287 * t66))
-  let t9307 := ((0 : α) * t9289)
-  let t9310 := ((((1 : α) * t9286) + t9307) + t2420)
-  let t9312 := ((0 : α) * t9286)
-  let t9314 := ((t9312 + ((1 : α) * t9289)) + t2420)
-  let t9315 := (t9312 + t9307)
-  let t9316 := (t9315 + t2429)
-  let t9318 := ((0 : α) * t9295)
-  let t9321 := ((((1 : α) * t9292) + t9318) + t95)
-  let t9323 := ((0 : α) * t9292)
-  let t9325 := ((t9323 + ((1 : α) * t9295)) + t95)
-  let t9326 := (t9323 + t9318)
-  let t9327 := (t9326 + t91)
-  let t9355 := ((t9315 + t2420) * (0 : α))
-  let t9365 := ((t9310 * m.x01) + (t9314 * m.x11))
-  let t9371 := ((t9310 * m.x02) + (t9314 * m.x12))
-  let t9381 := ((t9326 + t95) * (0 : α))
-  let t9385 := ((t9321 * m.x00) + (t9325 * m.x10))
-  let t9391 := ((t9321 * m.x01) + (t9325 * m.x11))
-  let t9393 := ((t9391 + (t9327 * m.x21)) + t9381)
-  let t9397 := ((t9321 * m.x02) + (t9325 * m.x12))
-  let t9399 := ((t9397 + (t9327 * m.x22)) + t9381)
-  let t9440 := ((t9391 + (t9327 * t8708)) + t9381)
-  let t9443 := ((t9397 + (t9327 * t8709)) + t9381)
-  let t9455 := (-(atan2 t8832 m.x00))
-  let t9456 := (-t9455)
-  let t9457 := (cos t9456)
-  let t9458 := (sin t9456)
-  let t9461 := (t9457 * t68)
-  let t9463 := (-t9458)
-  let t9465 := ((t9463 * t66) + (t9461 * t68))
-  let t9466 := (t9458 * t68)
-  let t9468 := ((t9457 * t66) + (t9466 * t68))
-  let t9471 := ((t9463 * t72) + (t9461 * t66))
-  let t9474 := ((t9457 * t72) + (t9466 * t66))
-  let t9486 := ((0 : α) * t9468)
-  let t9489 := ((((1 : α) * t9465) + t9486) + t2420)
-  let t9491 := ((0 : α) * t9465)
-  let t9493 := ((t9491 + ((1 : α) * t9468)) + t2420)
-  let t9494 := (t9491 + t9486)
-  let t9495 := (t9494 + t2429)
-  let t9497 := ((0 : α) * t9474)
-  let t9500 := ((((1 : α) * t9471) + t9497) + t95)
-  let t9502 := ((0 : α) * t9471)
-  let t9504 := ((t9502 + ((1 : α) * t9474)) + t95)
-  let t9505 := (t9502 + t9497)
-  let t9506 := (t9505 + t91)
-  let t9534 := ((t9494 + t2420) * (0 : α))
-  let t9544 := ((t9489 * m.x01) + (t9493 * t8833))
-  let t9550 := ((t9489 * m.x02) + (t9493 * t8834))
-  let t9560 := ((t9505 + t95) * (0 : α))
-  let t9564 := ((t9500 * m.x00) + (t9504 * t8832))
-  let t9570 := ((t9500 * m.x01) + (t9504 * t8833))
-  let t9572 := ((t9570 + (t9506 * m.x21)) + t9560)
-  let t9576 := ((t9500 * m.x02) + (t9504 * t8834))
-  let t9578 := ((t9576 + (t9506 * m.x22)) + t9560)
-  let t9619 := ((t9570 + (t9506 * t8708)) + t9560)
-  let t9622 := ((t9576 + (t9506 * t8709)) + t9560)
-  let t9634 := (-(atan2 m.x10 t9079))
-  let t9635 := (-t9634)
-  let t9636 := (cos t9635)
-  let t9637 := (sin t9635)
-  let t9640 := (t9636 * t68)
-  let t9642 := (-t9637)
-  let t9644 := ((t9642 * t66) + (t9640 * t68))
-  let t9645 := (t9637 * t68)
-  let t9647 := ((t9636 * t66) + (t9645 * t68))
-  let t9650 := ((t9642 * t72) + (t9640 * t66))
-  let t9653 := ((t9636 * t72) + (t9645 * t66))
-  let t9665 := ((0 : α) * t9647)
-  let t9668 := ((((1 : α) * t9644) + t9665) + t2420)
-  let t9670 := ((0 : α) * t9644)
-  let t9672 := ((t9670 + ((1 : α) * t9647)) + t2420)
-  let t9673 := (t9670 + t9665)
-  let t9674 := (t9673 + t2429)
-  let t9676 := ((0 : α) * t9653)
-  let t9679 := ((((1 : α) * t9650) + t9676) + t95)
-  let t9681 := ((0 : α) * t9650)
-  let t9683 := ((t9681 + ((1 : α) * t9653)) + t95)
-  let t9684 := (t9681 + t9676)
-  let t9685 := (t9684 + t91)
-  let t9713 := ((t9673 + t2420) * (0 : α))
-  let t9723 := ((t9668 * t9080) + (t9672 * m.x11))
-  let t9729 := ((t9668 * t9081) + (t9672 * m.x12))
-  let t9739 := ((t9684 + t95) * (0 : α))
-  let t9743 := ((t9679 * t9079) + (t9683 * m.x10))
-  let t9749 := ((t9679 * t9080) + (t9683 * m.x11))
-  let t9751 := ((t9749 + (t9685 * m.x21)) + t9739)
-  let t9755 := ((t9679 * t9081) + (t9683 * m.x12))
-  let t9757 := ((t9755 + (t9685 * m.x22)) + t9739)
-  let t9798 := ((t9749 + (t9685 * t8708)) + t9739)
-  let t9801 := ((t9755 + (t9685 * t8709)) + t9739)
-  let t9813 := (-(atan2 t8832 t9079))
-  let t9814 := (-t9813)
-  let t9815 := (cos t9814)
-  let t9816 := (sin t9814)
-  let t9819 := (t9815 * t68)
-  let t9821 := (-t9816)
-  let t9823 := ((t9821 * t66) + (t9819 * t68))
-  let t9824 := (t9816 * t68)
-  let t9826 := ((t9815 * t66) + (t9824 * t68))
-  let t9829 := ((t9821 * t72) + (t9819 * t66))
-  let t9832 := ((t9815 * t72) + (t9824 * t66))
-  let t9844 := ((0 : α) * t9826)
-  let t9847 := ((((1 : α) * t9823) + t9844) + t2420)
-  let t9849 := ((0 : α) * t9823)
-  let t9851 := ((t9849 + ((1 : α) * t9826)) + t2420)
-  let t9852 := (t9849 + t9844)
-  let t9853 := (t9852 + t2429)
-  let t9855 := ((0 : α) * t9832)
-  let t9858 := ((((1 : α) * t9829) + t9855) + t95)
-  let t9860 := ((0 : α) * t9829)
-  let t9862 := ((t9860 + ((1 : α) * t9832)) + t95)
-  let t9863 := (t9860 + t9855)
-  let t9864 := (t9863 + t91)
-  let t9892 := ((t9852 + t2420) * (0 : α))
-  let t9902 := ((t9847 * t9080) + (t9851 * t8833))
-  let t9908 := ((t9847 * t9081) + (t9851 * t8834))
-  let t9918 := ((t9863 + t95) * (0 : α))
-  let t9922 := ((t9858 * t9079) + (t9862 * t8832))
-  let t9928 := ((t9858 * t9080) + (t9862 * t8833))
-  let t9930 := ((t9928 + (t9864 * m.x21)) + t9918)
-  let t9934 := ((t9858 * t9081) + (t9862 * t8834))
-  let t9936 := ((t9934 + (t9864 * m.x22)) + t9918)
-  let t9977 := ((t9928 + (t9864 * t8708)) + t9918)
-  let t9980 := ((t9934 + (t9864 * t8709)) + t9918)
-  if t8704 = (0 : α) then
-    if t8705 = (0 : α) then
-      if t8706 = (0 : α) then
-        ⟨t9276, (-(atan2 (-((t9385 + (t9327 * m.x20)) + t9381)) (sqrt ((t9399 * t9399) + (t9393 * t9393))))), (-(atan2 (-((t9371 + (t9316 * m.x22)) + t9355)) ((t9365 + (t9316 * m.x21)) + t9355)))⟩
+  let t2448 := ((0 : α) * t73)
+  let t2457 := ((1 : α) * t73)
+  let t8767 := (V3.length tmin sqrt ⟨m.x00, m.x01, m.x02⟩)
+  let t8768 := (V3.length tmin sqrt ⟨m.x10, m.x11, m.x12⟩)
+  let t8769 := (V3.length tmin sqrt ⟨m.x20, m.x21, m.x22⟩)
+  let t8770 := (m.x20 / t8769)
+  let t8771 := (m.x21 / t8769)
+  let t8772 := (m.x22 / t8769)
+  let t8895 := (m.x10 / t8768)
+  let t8896 := (m.x11 / t8768)
+  let t8897 := (m.x12 / t8768)
+  let t9142 := (m.x00 / t8767)
+  let t9143 := (m.x01 / t8767)
+  let t9144 := (m.x02 / t8767)
+  let t9339 := (-(atan2 m.x10 m.x00))
+  let t9340 := (-t9339)
+  let t9341 := (cos t9340)
+  let t9342 := (sin t9340)
+  let t9345 := (t9341 * t68)
+  let t9347 := (-t9342)
+  let t9349 := ((t9347 * t66) + (t9345 * t68))
+  let t9350 := (t9342 * t68)
+  let t9352 := ((t9341 * t66) + (t9350 * t68))
+  let t9355 := ((t9347 * t72) + (t9345 * t66))
+  let t9358 := ((t9341 * t72) + (t9350 * t66))
+  let t9370 := ((0 : α) * t9352)
+  let t9373 := ((((1 : α) * t9349) + t9370) + t2448)
+  let t9375 := ((0 : α) * t9349)
+  let t9377 := ((t9375 + ((1 : α) * t9352)) + t2448)
+  let t9378 := (t9375 + t9370)
+  let t9379 := (t9378 + t2457)
+  let t9381 := ((0 : α) * t9358)
+  let t9384 := ((((1 : α) * t9355) + t9381) + t95)
+  let t9386 := ((0 : α) * t9355)
+  let t9388 := ((t9386 + ((1 : α) * t9358)) + t95)
+  let t9389 := (t9386 + t9381)
+  let t9390 := (t9389 + t91)
+  let t9418 := ((t9378 + t2448) * (0 : α))
+  let t9428 := ((t9373 * m.x01) + (t9377 * m.x11))
+  let t9434 := ((t9373 * m.x02) + (t9377 * m.x12))
+  let t9444 := ((t9389 + t95) * (0 : α))
+  let t9448 := ((t9384 * m.x00) + (t9388 * m.x10))
+  let t9454 := ((t9384 * m.x01) + (t9388 * m.x11))
+  let t9456 := ((t9454 + (t9390 * m.x21)) + t9444)
+  let t9460 := ((t9384 * m.x02) + (t9388 * m.x12))
+  let t9462 := ((t9460 + (t9390 * m.x22)) + t9444)
+  let t9503 := ((t9454 + (t9390 * t8771)) + t9444)
+  let t9506 := ((t9460 + (t9390 * t8772)) + t9444)
+  let t9518 := (-(atan2 t8895 m.x00))
+  let t9519 := (-t9518)
+  let t9520 := (cos t9519)
+  let t9521 := (sin t9519)
+  let t9524 := (t9520 * t68)
+  let t9526 := (-t9521)
+  let t9528 := ((t9526 * t66) + (t9524 * t68))
+  let t9529 := (t9521 * t68)
+  let t9531 := ((t9520 * t66) + (t9529 * t68))
+  let t9534 := ((t9526 * t72) + (t9524 * t66))
+  let t9537 := ((t9520 * t72) + (t9529 * t66))
+  let t9549 := ((0 : α) * t9531)
+  let t9552 := ((((1 : α) * t9528) + t9549) + t2448)
+  let t9554 := ((0 : α) * t9528)
+  let t9556 := ((t9554 + ((1 : α) * t9531)) + t2448)
+  let t9557 := (t9554 + t9549)
+  let t9558 := (t9557 + t2457)
+  let t9560 := ((0 : α) * t9537)
+  let t9563 := ((((1 : α) * t9534) + t9560) + t95)
+  let t9565 := ((0 : α) * t9534)
+  let t9567 := ((t9565 + ((1 : α) * t9537)) + t95)
+  let t9568 := (t9565 + t9560)
+  let t9569 := (t9568 + t91)
+  let t9597 := ((t9557 + t2448) * (0 : α))
+  let t9607 := ((t9552 * m.x01) + (t9556 * t8896))
+  let t9613 := ((t9552 * m.x02) + (t9556 * t8897))
+  let t9623 := ((t9568 + t95) * (0 : α))
+  let t9627 := ((t9563 * m.x00) + (t9567 * t8895))
+  let t9633 := ((t9563 * m.x01) + (t9567 * t8896))
+  let t9635 := ((t9633 + (t9569 * m.x21)) + t9623)
+  let t9639 := ((t9563 * m.x02) + (t9567 * t8897))
+  let t9641 := ((t9639 + (t9569 * m.x22)) + t9623)
+  let t9682 := ((t9633 + (t9569 * t8771)) + t9623)
+  let t9685 := ((t9639 + (t9569 * t8772)) + t9623)
+  let t9697 := (-(atan2 m.x10 t9142))
+  let t9698 := (-t9697)
+  let t9699 := (cos t9698)
+  let t9700 := (sin t9698)
+  let t9703 := (t9699 * t68)
+  let t9705 := (-t9700)
+  let t9707 := ((t9705 * t66) + (t9703 * t68))
+  let t9708 := (t9700 * t68)
+  let t9710 := ((t9699 * t66) + (t9708 * t68))
+  let t9713 := ((t9705 * t72) + (t9703 * t66))
+  let t9716 := ((t9699 * t72) + (t9708 * t66))
+  let t9728 := ((0 : α) * t9710)
+  let t9731 := ((((1 : α) * t9707) + t9728) + t2448)
+  let t9733 := ((0 : α) * t9707)
+  let t9735 := ((t9733 + ((1 : α) * t9710)) + t2448)
+  let t9736 := (t9733 + t9728)
+  let t9737 := (t9736 + t2457)
+  let t9739 := ((0 : α) * t9716)
+  let t9742 := ((((1 : α) * t9713) + t9739) + t95)
+  let t9744 := ((0 : α) * t9713)
+  let t9746 := ((t9744 + ((1 : α) * t9716)) + t95)
+  let t9747 := (t9744 + t9739)
+  let t9748 := (t9747 + t91)
+  let t9776 := ((t9736 + t2448) * (0 : α))
+  let t9786 := ((t9731 * t9143) + (t9735 * m.x11))
+  let t9792 := ((t9731 * t9144) + (t9735 * m.x12))
+  let t9802 := ((t9747 + t95) * (0 : α))
+  let t9806 := ((t9742 * t9142) + (t9746 * m.x10))
+  let t9812 := ((t9742 * t9143) + (t9746 * m.x11))
+  let t9814 := ((t9812 + (t9748 * m.x21)) + t9802)
+  let t9818 := ((t9742 * t9144) + (t9746 * m.x12))
+  let t9820 := ((t9818 + (t9748 * m.x22)) + t9802)
+  let t9861 := ((t9812 + (t9748 * t8771)) + t9802)
+  let t9864 := ((t9818 + (t9748 * t8772)) + t9802)
+  let t9876 := (-(atan2 t8895 t9142))
+  let t9877 := (-t9876)
+  let t9878 := (cos t9877)
+  let t9879 := (sin t9877)
+  let t9882 := (t9878 * t68)
+  let t9884 := (-t9879)
+  let t9886 := ((t9884 * t66) + (t9882 * t68))
+  let t9887 := (t9879 * t68)
+  let t9889 := ((t9878 * t66) + (t9887 * t68))
+  let t9892 := ((t9884 * t72) + (t9882 * t66))
+  let t9895 := ((t9878 * t72) + (t9887 * t66))
+  let t9907 := ((0 : α) * t9889)
+  let t9910 := ((((1 : α) * t9886) + t9907) + t2448)
+  let t9912 := ((0 : α) * t9886)
+  let t9914 := ((t9912 + ((1 : α) * t9889)) + t2448)
+  let t9915 := (t9912 + t9907)
+  let t9916 := (t9915 + t2457)
+  let t9918 := ((0 : α) * t9895)
+  let t9921 := ((((1 : α) * t9892) + t9918) + t95)
+  let t9923 := ((0 : α) * t9892)
+  let t9925 := ((t9923 + ((1 : α) * t9895)) + t95)
+  let t9926 := (t9923 + t9918)
+  let t9927 := (t9926 + t91)
+  let t9955 := ((t9915 + t2448) * (0 : α))
+  let t9965 := ((t9910 * t9143) + (t9914 * t8896))
+  let t9971 := ((t9910 * t9144) + (t9914 * t8897))
+  let t9981 := ((t9926 + t95) * (0 : α))
+  let t9985 := ((t9921 * t9142) + (t9925 * t8895))
+  let t9991 := ((t9921 * t9143) + (t9925 * t8896))
+  let t9993 := ((t9991 + (t9927 * m.x21)) + t9981)
+  let t9997 := ((t9921 * t9144) + (t9925 * t8897))
+  let t9999 := ((t9997 + (t9927 * m.x22)) + t9981)
+  let t10040 := ((t9991 + (t9927 * t8771)) + t9981)
+  let t10043 := ((t9997 + (t9927 * t8772)) + t9981)
+  if t8767 = (0 : α) then
+    if t8768 = (0 : α) then
+      if t8769 = (0 : α) then
+        ⟨t9339, (-(atan2 (-((t9448 + (t9390 * m.x20)) + t9444)) (sqrt ((t9462 * t9462) + (t9456 * t9456))))), (-(atan2 (-((t9434 + (t9379 * m.x22)) + t9418)) ((t9428 + (t9379 * m.x21)) + t9418)))⟩
       else
-        ⟨t9276, (-(atan2 (-((t9385 + (t9327 * t8707)) + t9381)) (sqrt ((t9443 * t9443) + (t9440 * t9440))))), (-(atan2 (-((t9371 + (t9316 * t8709)) + t9355)) ((t9365 + (t9316 * t8708)) + t9355)))⟩
+        ⟨t9339, (-(atan2 (-((t9448 + (t9390 * t8770)) + t9444)) (sqrt ((t9506 * t9506) + (t9503 * t9503))))), (-(atan2 (-((t9434 + (t9379 * t8772)) + t9418)) ((t9428 + (t9379 * t8771)) + t9418)))⟩
     else
-      if t8706 = (0 : α) then
-        ⟨t9455, (-(atan2 (-((t9564 + (t9506 * m.x20)) + t9560)) (sqrt ((t9578 * t9578) + (t9572 * t9572))))), (-(atan2 (-((t9550 + (t9495 * m.x22)) + t9534)) ((t9544 + (t9495 * m.x21)) + t9534)))⟩
+      if t8769 = (0 : α) then
+        ⟨t9518, (-(atan2 (-((t9627 + (t9569 * m.x20)) + t9623)) (sqrt ((t9641 * t9641) + (t9635 * t9635))))), (-(atan2 (-((t9613 + (t9558 * m.x22)) + t9597)) ((t9607 + (t9558 * m.x21)) + t9597)))⟩
       else
-        ⟨t9455, (-(atan2 (-((t9564 + (t9506 * t8707)) + t9560)) (sqrt ((t9622 * t9622) + (t9619 * t9619))))), (-(atan2 (-((t9550 + (t9495 * t8709)) + t9534)) ((t9544 + (t9495 * t8708)) + t9534)))⟩
+        ⟨t9518, (-(atan2 (-((t9627 + (t9569 * t8770)) + t9623)) (sqrt ((t9685 * t9685) + (t9682 * t9682))))), (-(atan2 (-((t9613 + (t9558 * t8772)) + t9597)) ((t9607 + (t9558 * t8771)) + t9597)))⟩
   else
-    if t8705 = (0 : α) then
-      if t8706 = (0 : α) then
-        ⟨t9634, (-(atan2 (-((t9743 + (t9685 * m.x20)) + t9739)) (sqrt ((t9757 * t9757) + (t9751 * t9751))))), (-(atan2 (-((t9729 + (t9674 * m.x22)) + t9713)) ((t9723 + (t9674 * m.x21)) + t9713)))⟩
+    if t8768 = (0 : α) then
+      if t8769 = (0 : α) then
+        ⟨t9697, (-(atan2 (-((t9806 + (t9748 * m.x20)) + t9802)) (sqrt ((t9820 * t9820) + (t9814 * t9814))))), (-(atan2 (-((t9792 + (t9737 * m.x22)) + t9776)) ((t9786 + (t9737 * m.x21)) + t9776)))⟩
       else
-        ⟨t9634, (-(atan2 (-((t9743 + (t9685 * t8707)) + t9739)) (sqrt ((t9801 * t9801) + (t9798 * t9798))))), (-(atan2 (-((t9729 + (t9674 * t8709)) + t9713)) ((t9723 + (t9674 * t8708)) + t9713)))⟩
+        ⟨t9697, (-(atan2 (-((t9806 + (t9748 * t8770)) + t9802)) (sqrt ((t9864 * t9864) + (t9861 * t9861))))), (-(atan2 (-((t9792 + (t9737 * t8772)) + t9776)) ((t9786 + (t9737 * t8771)) + t9776)))⟩
     else
-      if t8706 = (0 : α) then
-        ⟨t9813, (-(atan2 (-((t9922 + (t9864 * m.x20)) + t9918)) (sqrt ((t9936 * t9936) + (t9930 * t9930))))), (-(atan2 (-((t9908 + (t9853 * m.x22)) + t9892)) ((t9902 + (t9853 * m.x21)) + t9892)))⟩
+      if t8769 = (0 : α) then
+        ⟨t9876, (-(atan2 (-((t9985 + (t9927 * m.x20)) + t9981)) (sqrt ((t9999 * t9999) + (t9993 * t9993))))), (-(atan2 (-((t9971 + (t9916 * m.x22)) + t9955)) ((t9965 + (t9916 * m.x21)) + t9955)))⟩
       else
-        ⟨t9813, (-(atan2 (-((t9922 + (t9864 * t8707)) + t9918)) (sqrt ((t9980 * t9980) + (t9977 * t9977))))), (-(atan2 (-((t9908 + (t9853 * t8709)) + t9892)) ((t9902 + (t9853 * t8708)) + t9892)))⟩
+        ⟨t9876, (-(atan2 (-((t9985 + (t9927 * t8770)) + t9981)) (sqrt ((t10043 * t10043) + (t10040 * t10040))))), (-(atan2 (-((t9971 + (t9916 * t8772)) + t9955)) ((t9965 + (t9916 * t8771)) + t9955)))⟩
 
 /-- extracted from the C++ template at T = Sym; 4 path(s) -/
 def Euler.extractEuler22 {α : Type} [Add α] [Mul α] [Div α] [Neg α] [LT α] [DecidableLT α] [DecidableEq α] [OfNat α 0] [OfNat α 2] (tmin : α) (sqrt : α → α) (atan2 : α → α → α) (m : M22 α) : α :=
-  let t9991 := (V2.length tmin sqrt ⟨m.x00, m.x01⟩)
-  let t9992 := (V2.length tmin sqrt ⟨m.x10, m.x11⟩)
-  let t9993 := (m.x10 / t9992)
-  let t9997 := (m.x00 / t9991)
-  if t9991 = (0 : α) then
-    if t9992 = (0 : α) then
+  let t10054 := (V2.length tmin sqrt ⟨m.x00, m.x01⟩)
+  let t10055 := (V2.length tmin sqrt ⟨m.x10, m.x11⟩)
+  let t10056 := (m.x10 / t10055)
+  let t10060 := (m.x00 / t10054)
+  if t10054 = (0 : α) then
+    if t10055 = (0 : α) then
       (-(atan2 m.x10 m.x00))
     else
-      (-(atan2 t9993 m.x00))
+      (-(atan2 t10056 m.x00))
   else
-    if t9992 = (0 : α) then
-      (-(atan2 m.x10 t9997))
+    if t10055 = (0 : α) then
+      (-(atan2 m.x10 t10060))
     else
-      (-(atan2 t9993 t9997))
+      (-(atan2 t10056 t10060))
 
 /-- extracted from the C++ template at T = Sym; 4 path(s) -/
 def Euler.extractEuler33 {α : Type} [Add α] [Mul α] [Div α] [Neg α] [LT α] [DecidableLT α] [DecidableEq α] [OfNat α 0] [OfNat α 2] (tmin : α) (sqrt : α → α) (atan2 : α → α → α) (m : M33 α) : α :=
-  let t9991 := (V2.length tmin sqrt ⟨m.x00, m.x01⟩)
-  let t9992 := (V2.length tmin sqrt ⟨m.x10, m.x11⟩)
-  let t9993 := (m.x10 / t9992)
-  let t9997 := (m.x00 / t9991)
-  if t9991 = (0 : α) then
-    if t9992 = (0 : α) then
+  let t10054 := (V2.length tmin sqrt ⟨m.x00, m.x01⟩)
+  let t10055 := (V2.length tmin sqrt ⟨m.x10, m.x11⟩)
+  let t10056 := (m.x10 / t10055)
+  let t10060 := (m.x00 / t10054)
+  if t10054 = (0 : α) then
+    if t10055 = (0 : α) then
       (-(atan2 m.x10 m.x00))
     else
-      (-(atan2 t9993 m.x00))
+      (-(atan2 t10056 m.x00))
   else
-    if t9992 = (0 : α) then
-      (-(atan2 m.x10 t9997))
+    if t10055 = (0 : α) then
+      (-(atan2 m.x10 t10060))
     else
-      (-(atan2 t9993 t9997))
+      (-(atan2 t10056 t10060))
 
 /-- extracted from the C++ template at T = Sym; 1 path(s) -/
 def Euler.simpleXYZRotation {α : Type} [Add α] [Sub α] (angleMod : α → α) (xyzRot : V3 α) (target : V3 α) : (V3 α) :=
@@ -473,1010 +473,1010 @@ def Euler.simpleXYZRotation {α : Type} [Add α] [Sub α] (angleMod : α → α)
 
 /-- extracted from the C++ template at T = Sym; 2 path(s) -/
 def Euler.nearestRotation_XYZ {α : Type} [Add α] [Sub α] [Mul α] [Div α] [LT α] [DecidableLT α] [OfNat α 281474976710656] [OfNat α 884279719003555] (angleMod : α → α) (xyzRot : V3 α) (target : V3 α) : (V3 α) :=
-  let t10013 := (target.x + (angleMod (xyzRot.x - target.x)))
-  let t10015 := (target.y + (angleMod (xyzRot.y - target.y)))
-  let t10017 := (target.z + (angleMod (xyzRot.z - target.z)))
-  let t10026 := (target.x + (angleMod ((((884279719003555 : α) / (281474976710656 : α)) + t10013) - target.x)))
-  let t10028 := (target.y + (angleMod ((((884279719003555 : α) / (281474976710656 : α)) - t10015) - target.y)))
-  let t10030 := (target.z + (angleMod ((((884279719003555 : α) / (281474976710656 : α)) + t10017) - target.z)))
-  let t10031 := (t10017 - target.z)
-  let t10032 := (t10015 - target.y)
-  let t10033 := (t10013 - target.x)
-  let t10034 := (t10030 - target.z)
-  let t10035 := (t10028 - target.y)
-  let t10036 := (t10026 - target.x)
-  let t10041 := (((t10033 * t10033) + (t10032 * t10032)) + (t10031 * t10031))
-  let t10046 := (((t10036 * t10036) + (t10035 * t10035)) + (t10034 * t10034))
-  if t10046 < t10041 then
-    ⟨t10026, t10028, t10030⟩
+  let t10076 := (target.x + (angleMod (xyzRot.x - target.x)))
+  let t10078 := (target.y + (angleMod (xyzRot.y - target.y)))
+  let t10080 := (target.z + (angleMod (xyzRot.z - target.z)))
+  let t10089 := (target.x + (angleMod ((((884279719003555 : α) / (281474976710656 : α)) + t10076) - target.x)))
+  let t10091 := (target.y + (angleMod ((((884279719003555 : α) / (281474976710656 : α)) - t10078) - target.y)))
+  let t10093 := (target.z + (angleMod ((((884279719003555 : α) / (281474976710656 : α)) + t10080) - target.z)))
+  let t10094 := (t10080 - target.z)
+  let t10095 := (t10078 - target.y)
+  let t10096 := (t10076 - target.x)
+  let t10097 := (t10093 - target.z)
+  let t10098 := (t10091 - target.y)
+  let t10099 := (t10089 - target.x)
+  let t10104 := (((t10096 * t10096) + (t10095 * t10095)) + (t10094 * t10094))
+  let t10109 := (((t10099 * t10099) + (t10098 * t10098)) + (t10097 * t10097))
+  if t10109 < t10104 then
+    ⟨t10089, t10091, t10093⟩
   else
-    ⟨t10013, t10015, t10017⟩
+    ⟨t10076, t10078, t10080⟩
 
 /-- extracted from the C++ template at T = Sym; 2 path(s) -/
 def Euler.makeNear_XYZ {α : Type} [Add α] [Sub α] [Mul α] [Div α] [LT α] [DecidableLT α] [OfNat α 281474976710656] [OfNat α 884279719003555] (angleMod : α → α) (a : V3 α) (t : V3 α) : ((V3 α) × Int) :=
-  let t10054 := (t.x + (angleMod (a.x - t.x)))
-  let t10056 := (t.y + (angleMod (a.y - t.y)))
-  let t10058 := (t.z + (angleMod (a.z - t.z)))
-  let t10066 := (t.x + (angleMod ((((884279719003555 : α) / (281474976710656 : α)) + t10054) - t.x)))
-  let t10068 := (t.y + (angleMod ((((884279719003555 : α) / (281474976710656 : α)) - t10056) - t.y)))
-  let t10070 := (t.z + (angleMod ((((884279719003555 : α) / (281474976710656 : α)) + t10058) - t.z)))
-  let t10071 := (t10058 - t.z)
-  let t10072 := (t10056 - t.y)
-  let t10073 := (t10054 - t.x)
-  let t10074 := (t10070 - t.z)
-  let t10075 := (t10068 - t.y)
-  let t10076 := (t10066 - t.x)
-  let t10081 := (((t10073 * t10073) + (t10072 * t10072)) + (t10071 * t10071))
-  let t10086 := (((t10076 * t10076) + (t10075 * t10075)) + (t10074 * t10074))
-  if t10086 < t10081 then
-    (⟨t10066, t10068, t10070⟩, (257 : Int))
+  let t10117 := (t.x + (angleMod (a.x - t.x)))
+  let t10119 := (t.y + (angleMod (a.y - t.y)))
+  let t10121 := (t.z + (angleMod (a.z - t.z)))
+  let t10129 := (t.x + (angleMod ((((884279719003555 : α) / (281474976710656 : α)) + t10117) - t.x)))
+  let t10131 := (t.y + (angleMod ((((884279719003555 : α) / (281474976710656 : α)) - t10119) - t.y)))
+  let t10133 := (t.z + (angleMod ((((884279719003555 : α) / (281474976710656 : α)) + t10121) - t.z)))
+  let t10134 := (t10121 - t.z)
+  let t10135 := (t10119 - t.y)
+  let t10136 := (t10117 - t.x)
+  let t10137 := (t10133 - t.z)
+  let t10138 := (t10131 - t.y)
+  let t10139 := (t10129 - t.x)
+  let t10144 := (((t10136 * t10136) + (t10135 * t10135)) + (t10134 * t10134))
+  let t10149 := (((t10139 * t10139) + (t10138 * t10138)) + (t10137 * t10137))
+  if t10149 < t10144 then
+    (⟨t10129, t10131, t10133⟩, (257 : Int))
   else
-    (⟨t10054, t10056, t10058⟩, (257 : Int))
+    (⟨t10117, t10119, t10121⟩, (257 : Int))
 
 /-- extracted from the C++ template at T = Sym; 2 path(s) -/
 def Euler.nearestRotation_XZY {α : Type} [Add α] [Sub α] [Mul α] [Div α] [LT α] [DecidableLT α] [OfNat α 281474976710656] [OfNat α 884279719003555] (angleMod : α → α) (xyzRot : V3 α) (target : V3 α) : (V3 α) :=
-  let t10013 := (target.x + (angleMod (xyzRot.x - target.x)))
-  let t10015 := (target.y + (angleMod (xyzRot.y - target.y)))
-  let t10017 := (target.z + (angleMod (xyzRot.z - target.z)))
-  let t10026 := (target.x + (angleMod ((((884279719003555 : α) / (281474976710656 : α)) + t10013) - target.x)))
-  let t10031 := (t10017 - target.z)
-  let t10032 := (t10015 - target.y)
-  let t10033 := (t10013 - target.x)
-  let t10036 := (t10026 - target.x)
-  let t10041 := (((t10033 * t10033) + (t10032 * t10032)) + (t10031 * t10031))
-  let t10092 := (target.y + (angleMod ((((884279719003555 : α) / (281474976710656 : α)) + t10015) - target.y)))
-  let t10094 := (target.z + (angleMod ((((884279719003555 : α) / (281474976710656 : α)) - t10017) - target.z)))
-  let t10095 := (t10094 - target.z)
-  let t10096 := (t10092 - target.y)
-  let t10100 := (((t10036 * t10036) + (t10096 * t10096)) + (t10095 * t10095))
-  if t10100 < t10041 then
-    ⟨t10026, t10092, t10094⟩
+  let t10076 := (target.x + (angleMod (xyzRot.x - target.x)))
+  let t10078 := (target.y + (angleMod (xyzRot.y - target.y)))
+  let t10080 := (target.z + (angleMod (xyzRot.z - target.z)))
+  let t10089 := (target.x + (angleMod ((((884279719003555 : α) / (281474976710656 : α)) + t10076) - target.x)))
+  let t10094 := (t10080 - target.z)
+  let t10095 := (t10078 - target.y)
+  let t10096 := (t10076 - target.x)
+  let t10099 := (t10089 - target.x)
+  let t10104 := (((t10096 * t10096) + (t10095 * t10095)) + (t10094 * t10094))
+  let t10155 := (target.y + (angleMod ((((884279719003555 : α) / (281474976710656 : α)) + t10078) - target.y)))
+  let t10157 := (target.z + (angleMod ((((884279719003555 : α) / (281474976710656 : α)) - t10080) - target.z)))
+  let t10158 := (t10157 - target.z)
+  let t10159 := (t10155 - target.y)
+  let t10163 := (((t10099 * t10099) + (t10159 * t10159)) + (t10158 * t10158))
+  if t10163 < t10104 then
+    ⟨t10089, t10155, t10157⟩
   else
-    ⟨t10013, t10015, t10017⟩
+    ⟨t10076, t10078, t10080⟩
 
 /-- extracted from the C++ template at T = Sym; 2 path(s) -/
 def Euler.makeNear_XZY {α : Type} [Add α] [Sub α] [Mul α] [Div α] [LT α] [DecidableLT α] [OfNat α 281474976710656] [OfNat α 884279719003555] (angleMod : α → α) (a : V3 α) (t : V3 α) : ((V3 α) × Int) :=
-  let t10054 := (t.x + (angleMod (a.x - t.x)))
-  let t10056 := (t.y + (angleMod (a.y - t.y)))
-  let t10058 := (t.z + (angleMod (a.z - t.z)))
-  let t10066 := (t.x + (angleMod ((((884279719003555 : α) / (281474976710656 : α)) + t10054) - t.x)))
-  let t10068 := (t.y + (angleMod ((((884279719003555 : α) / (281474976710656 : α)) - t10056) - t.y)))
-  let t10070 := (t.z + (angleMod ((((884279719003555 : α) / (281474976710656 : α)) + t10058) - t.z)))
-  let t10071 := (t10058 - t.z)
-  let t10072 := (t10056 - t.y)
-  let t10073 := (t10054 - t.x)
-  let t10074 := (t10070 - t.z)
-  let t10075 := (t10068 - t.y)
-  let t10076 := (t10066 - t.x)
-  let t10102 := (((t10073 * t10073) + (t10071 * t10071)) + (t10072 * t10072))
-  let t10104 := (((t10076 * t10076) + (t10074 * t10074)) + (t10075 * t10075))
-  if t10104 < t10102 then
-    (⟨t10066, t10068, t10070⟩, (1 : Int))
+  let t10117 := (t.x + (angleMod (a.x - t.x)))
+  let t10119 := (t.y + (angleMod (a.y - t.y)))
+  let t10121 := (t.z + (angleMod (a.z - t.z)))
+  let t10129 := (t.x + (angleMod ((((884279719003555 : α) / (281474976710656 : α)) + t10117) - t.x)))
+  let t10131 := (t.y + (angleMod ((((884279719003555 : α) / (281474976710656 : α)) - t10119) - t.y)))
+  let t10133 := (t.z + (angleMod ((((884279719003555 : α) / (281474976710656 : α)) + t10121) - t.z)))
+  let t10134 := (t10121 - t.z)
+  let t10135 := (t10119 - t.y)
+  let t10136 := (t10117 - t.x)
+  let t10137 := (t10133 - t.z)
+  let t10138 := (t10131 - t.y)
+  let t10139 := (t10129 - t.x)
+  let t10165 := (((t10136 * t10136) + (t10134 * t10134)) + (t10135 * t10135))
+  let t10167 := (((t10139 * t10139) + (t10137 * t10137)) + (t10138 * t10138))
+  if t10167 < t10165 then
+    (⟨t10129, t10131, t10133⟩, (1 : Int))
   else
-    (⟨t10054, t10056, t10058⟩, (1 : Int))
+    (⟨t10117, t10119, t10121⟩, (1 : Int))
 
 /-- extracted from the C++ template at T = Sym; 2 path(s) -/
 def Euler.nearestRotation_YZX {α : Type} [Add α] [Sub α] [Mul α] [Div α] [LT α] [DecidableLT α] [OfNat α 281474976710656] [OfNat α 884279719003555] (angleMod : α → α) (xyzRot : V3 α) (target : V3 α) : (V3 α) :=
-  let t10013 := (target.x + (angleMod (xyzRot.x - target.x)))
-  let t10015 := (target.y + (angleMod (xyzRot.y - target.y)))
-  let t10017 := (target.z + (angleMod (xyzRot.z - target.z)))
-  let t10026 := (target.x + (angleMod ((((884279719003555 : α) / (281474976710656 : α)) + t10013) - target.x)))
-  let t10031 := (t10017 - target.z)
-  let t10032 := (t10015 - target.y)
-  let t10033 := (t10013 - target.x)
-  let t10036 := (t10026 - target.x)
-  let t10041 := (((t10033 * t10033) + (t10032 * t10032)) + (t10031 * t10031))
-  let t10092 := (target.y + (angleMod ((((884279719003555 : α) / (281474976710656 : α)) + t10015) - target.y)))
-  let t10094 := (target.z + (angleMod ((((884279719003555 : α) / (281474976710656 : α)) - t10017) - target.z)))
-  let t10095 := (t10094 - target.z)
-  let t10096 := (t10092 - target.y)
-  let t10100 := (((t10036 * t10036) + (t10096 * t10096)) + (t10095 * t10095))
-  if t10100 < t10041 then
-    ⟨t10026, t10092, t10094⟩
+  let t10076 := (target.x + (angleMod (xyzRot.x - target.x)))
+  let t10078 := (target.y + (angleMod (xyzRot.y - target.y)))
+  let t10080 := (target.z + (angleMod (xyzRot.z - target.z)))
+  let t10089 := (target.x + (angleMod ((((884279719003555 : α) / (281474976710656 : α)) + t10076) - target.x)))
+  let t10094 := (t10080 - target.z)
+  let t10095 := (t10078 - target.y)
+  let t10096 := (t10076 - target.x)
+  let t10099 := (t10089 - target.x)
+  let t10104 := (((t10096 * t10096) + (t10095 * t10095)) + (t10094 * t10094))
+  let t10155 := (target.y + (angleMod ((((884279719003555 : α) / (281474976710656 : α)) + t10078) - target.y)))
+  let t10157 := (target.z + (angleMod ((((884279719003555 : α) / (281474976710656 : α)) - t10080) - target.z)))
+  let t10158 := (t10157 - target.z)
+  let t10159 := (t10155 - target.y)
+  let t10163 := (((t10099 * t10099) + (t10159 * t10159)) + (t10158 * t10158))
+  if t10163 < t10104 then
+    ⟨t10089, t10155, t10157⟩
   else
-    ⟨t10013, t10015, t10017⟩
+    ⟨t10076, t10078, t10080⟩
 
 /-- extracted from the C++ template at T = Sym; 2 path(s) -/
 def Euler.makeNear_YZX {α : Type} [Add α] [Sub α] [Mul α] [Div α] [LT α] [DecidableLT α] [OfNat α 281474976710656] [OfNat α 884279719003555] (angleMod : α → α) (a : V3 α) (t : V3 α) : ((V3 α) × Int) :=
-  let t10054 := (t.x + (angleMod (a.x - t.x)))
-  let t10056 := (t.y + (angleMod (a.y - t.y)))
-  let t10058 := (t.z + (angleMod (a.z - t.z)))
-  let t10066 := (t.x + (angleMod ((((884279719003555 : α) / (281474976710656 : α)) + t10054) - t.x)))
-  let t10068 := (t.y + (angleMod ((((884279719003555 : α) / (281474976710656 : α)) - t10056) - t.y)))
-  let t10070 := (t.z + (angleMod ((((884279719003555 : α) / (281474976710656 : α)) + t10058) - t.z)))
-  let t10071 := (t10058 - t.z)
-  let t10072 := (t10056 - t.y)
-  let t10073 := (t10054 - t.x)
-  let t10074 := (t10070 - t.z)
-  let t10075 := (t10068 - t.y)
-  let t10076 := (t10066 - t.x)
-  let t10106 := (((t10071 * t10071) + (t10073 * t10073)) + (t10072 * t10072))
-  let t10108 := (((t10074 * t10074) + (t10076 * t10076)) + (t10075 * t10075))
-  if t10108 < t10106 then
-    (⟨t10066, t10068, t10070⟩, (4353 : Int))
+  let t10117 := (t.x + (angleMod (a.x - t.x)))
+  let t10119 := (t.y + (angleMod (a.y - t.y)))
+  let t10121 := (t.z + (angleMod (a.z - t.z)))
+  let t10129 := (t.x + (angleMod ((((884279719003555 : α) / (281474976710656 : α)) + t10117) - t.x)))
+  let t10131 := (t.y + (angleMod ((((884279719003555 : α) / (281474976710656 : α)) - t10119) - t.y)))
+  let t10133 := (t.z + (angleMod ((((884279719003555 : α) / (281474976710656 : α)) + t10121) - t.z)))
+  let t10134 := (t10121 - t.z)
+  let t10135 := (t10119 - t.y)
+  let t10136 := (t10117 - t.x)
+  let t10137 := (t10133 - t.z)
+  let t10138 := (t10131 - t.y)
+  let t10139 := (t10129 - t.x)
+  let t10169 := (((t10134 * t10134) + (t10136 * t10136)) + (t10135 * t10135))
+  let t10171 := (((t10137 * t10137) + (t10139 * t10139)) + (t10138 * t10138))
+  if t10171 < t10169 then
+    (⟨t10129, t10131, t10133⟩, (4353 : Int))
   else
-    (⟨t10054, t10056, t10058⟩, (4353 : Int))
+    (⟨t10117, t10119, t10121⟩, (4353 : Int))
 
 /-- extracted from the C++ template at T = Sym; 2 path(s) -/
 def Euler.nearestRotation_YXZ {α : Type} [Add α] [Sub α] [Mul α] [Div α] [LT α] [DecidableLT α] [OfNat α 281474976710656] [OfNat α 884279719003555] (angleMod : α → α) (xyzRot : V3 α) (target : V3 α) : (V3 α) :=
-  let t10013 := (target.x + (angleMod (xyzRot.x - target.x)))
-  let t10015 := (target.y + (angleMod (xyzRot.y - target.y)))
-  let t10017 := (target.z + (angleMod (xyzRot.z - target.z)))
-  let t10030 := (target.z + (angleMod ((((884279719003555 : α) / (281474976710656 : α)) + t10017) - target.z)))
-  let t10031 := (t10017 - target.z)
-  let t10032 := (t10015 - target.y)
-  let t10033 := (t10013 - target.x)
-  let t10034 := (t10030 - target.z)
-  let t10041 := (((t10033 * t10033) + (t10032 * t10032)) + (t10031 * t10031))
-  let t10092 := (target.y + (angleMod ((((884279719003555 : α) / (281474976710656 : α)) + t10015) - target.y)))
-  let t10096 := (t10092 - target.y)
-  let t10112 := (target.x + (angleMod ((((884279719003555 : α) / (281474976710656 : α)) - t10013) - target.x)))
-  let t10113 := (t10112 - target.x)
-  let t10116 := (((t10113 * t10113) + (t10096 * t10096)) + (t10034 * t10034))
-  if t10116 < t10041 then
-    ⟨t10112, t10092, t10030⟩
+  let t10076 := (target.x + (angleMod (xyzRot.x - target.x)))
+  let t10078 := (target.y + (angleMod (xyzRot.y - target.y)))
+  let t10080 := (target.z + (angleMod (xyzRot.z - target.z)))
+  let t10093 := (target.z + (angleMod ((((884279719003555 : α) / (281474976710656 : α)) + t10080) - target.z)))
+  let t10094 := (t10080 - target.z)
+  let t10095 := (t10078 - target.y)
+  let t10096 := (t10076 - target.x)
+  let t10097 := (t10093 - target.z)
+  let t10104 := (((t10096 * t10096) + (t10095 * t10095)) + (t10094 * t10094))
+  let t10155 := (target.y + (angleMod ((((884279719003555 : α) / (281474976710656 : α)) + t10078) - target.y)))
+  let t10159 := (t10155 - target.y)
+  let t10175 := (target.x + (angleMod ((((884279719003555 : α) / (281474976710656 : α)) - t10076) - target.x)))
+  let t10176 := (t10175 - target.x)
+  let t10179 := (((t10176 * t10176) + (t10159 * t10159)) + (t10097 * t10097))
+  if t10179 < t10104 then
+    ⟨t10175, t10155, t10093⟩
   else
-    ⟨t10013, t10015, t10017⟩
+    ⟨t10076, t10078, t10080⟩
 
 /-- extracted from the C++ template at T = Sym; 2 path(s) -/
 def Euler.makeNear_YXZ {α : Type} [Add α] [Sub α] [Mul α] [Div α] [LT α] [DecidableLT α] [OfNat α 281474976710656] [OfNat α 884279719003555] (angleMod : α → α) (a : V3 α) (t : V3 α) : ((V3 α) × Int) :=
-  let t10054 := (t.x + (angleMod (a.x - t.x)))
-  let t10056 := (t.y + (angleMod (a.y - t.y)))
-  let t10058 := (t.z + (angleMod (a.z - t.z)))
-  let t10066 := (t.x + (angleMod ((((884279719003555 : α) / (281474976710656 : α)) + t10054) - t.x)))
-  let t10068 := (t.y + (angleMod ((((884279719003555 : α) / (281474976710656 : α)) - t10056) - t.y)))
-  let t10070 := (t.z + (angleMod ((((884279719003555 : α) / (281474976710656 : α)) + t10058) - t.z)))
-  let t10071 := (t10058 - t.z)
-  let t10072 := (t10056 - t.y)
-  let t10073 := (t10054 - t.x)
-  let t10074 := (t10070 - t.z)
-  let t10075 := (t10068 - t.y)
-  let t10076 := (t10066 - t.x)
-  let t10118 := (((t10072 * t10072) + (t10073 * t10073)) + (t10071 * t10071))
-  let t10120 := (((t10075 * t10075) + (t10076 * t10076)) + (t10074 * t10074))
-  if t10120 < t10118 then
-    (⟨t10066, t10068, t10070⟩, (4097 : Int))
+  let t10117 := (t.x + (angleMod (a.x - t.x)))
+  let t10119 := (t.y + (angleMod (a.y - t.y)))
+  let t10121 := (t.z + (angleMod (a.z - t.z)))
+  let t10129 := (t.x + (angleMod ((((884279719003555 : α) / (281474976710656 : α)) + t10117) - t.x)))
+  let t10131 := (t.y + (angleMod ((((884279719003555 : α) / (281474976710656 : α)) - t10119) - t.y)))
+  let t10133 := (t.z + (angleMod ((((884279719003555 : α) / (281474976710656 : α)) + t10121) - t.z)))
+  let t10134 := (t10121 - t.z)
+  let t10135 := (t10119 - t.y)
+  let t10136 := (t10117 - t.x)
+  let t10137 := (t10133 - t.z)
+  let t10138 := (t10131 - t.y)
+  let t10139 := (t10129 - t.x)
+  let t10181 := (((t10135 * t10135) + (t10136 * t10136)) + (t10134 * t10134))
+  let t10183 := (((t10138 * t10138) + (t10139 * t10139)) + (t10137 * t10137))
+  if t10183 < t10181 then
+    (⟨t10129, t10131, t10133⟩, (4097 : Int))
   else
-    (⟨t10054, t10056, t10058⟩, (4097 : Int))
+    (⟨t10117, t10119, t10121⟩, (4097 : Int))
 
 /-- extracted from the C++ template at T = Sym; 2 path(s) -/
 def Euler.nearestRotation_ZXY {α : Type} [Add α] [Sub α] [Mul α] [Div α] [LT α] [DecidableLT α] [OfNat α 281474976710656] [OfNat α 884279719003555] (angleMod : α → α) (xyzRot : V3 α) (target : V3 α) : (V3 α) :=
-  let t10013 := (target.x + (angleMod (xyzRot.x - target.x)))
-  let t10015 := (target.y + (angleMod (xyzRot.y - target.y)))
-  let t10017 := (target.z + (angleMod (xyzRot.z - target.z)))
-  let t10030 := (target.z + (angleMod ((((884279719003555 : α) / (281474976710656 : α)) + t10017) - target.z)))
-  let t10031 := (t10017 - target.z)
-  let t10032 := (t10015 - target.y)
-  let t10033 := (t10013 - target.x)
-  let t10034 := (t10030 - target.z)
-  let t10041 := (((t10033 * t10033) + (t10032 * t10032)) + (t10031 * t10031))
-  let t10092 := (target.y + (angleMod ((((884279719003555 : α) / (281474976710656 : α)) + t10015) - target.y)))
-  let t10096 := (t10092 - target.y)
-  let t10112 := (target.x + (angleMod ((((884279719003555 : α) / (281474976710656 : α)) - t10013) - target.x)))
-  let t10113 := (t10112 - target.x)
-  let t10116 := (((t10113 * t10113) + (t10096 * t10096)) + (t10034 * t10034))
-  if t10116 < t10041 then
-    ⟨t10112, t10092, t10030⟩
+  let t10076 := (target.x + (angleMod (xyzRot.x - target.x)))
+  let t10078 := (target.y + (angleMod (xyzRot.y - target.y)))
+  let t10080 := (target.z + (angleMod (xyzRot.z - target.z)))
+  let t10093 := (target.z + (angleMod ((((884279719003555 : α) / (281474976710656 : α)) + t10080) - target.z)))
+  let t10094 := (t10080 - target.z)
+  let t10095 := (t10078 - target.y)
+  let t10096 := (t10076 - target.x)
+  let t10097 := (t10093 - target.z)
+  let t10104 := (((t10096 * t10096) + (t10095 * t10095)) + (t10094 * t10094))
+  let t10155 := (target.y + (angleMod ((((884279719003555 : α) / (281474976710656 : α)) + t10078) - target.y)))
+  let t10159 := (t10155 - target.y)
+  let t10175 := (target.x + (angleMod ((((884279719003555 : α) / (281474976710656 : α)) - t10076) - target.x)))
+  let t10176 := (t10175 - target.x)
+  let t10179 := (((t10176 * t10176) + (t10159 * t10159)) + (t10097 * t10097))
+  if t10179 < t10104 then
+    ⟨t10175, t10155, t10093⟩
   else
-    ⟨t10013, t10015, t10017⟩
+    ⟨t10076, t10078, t10080⟩
 
 /-- extracted from the C++ template at T = Sym; 2 path(s) -/
 def Euler.makeNear_ZXY {α : Type} [Add α] [Sub α] [Mul α] [Div α] [LT α] [DecidableLT α] [OfNat α 281474976710656] [OfNat α 884279719003555] (angleMod : α → α) (a : V3 α) (t : V3 α) : ((V3 α) × Int) :=
-  let t10054 := (t.x + (angleMod (a.x - t.x)))
-  let t10056 := (t.y + (angleMod (a.y - t.y)))
-  let t10058 := (t.z + (angleMod (a.z - t.z)))
-  let t10066 := (t.x + (angleMod ((((884279719003555 : α) / (281474976710656 : α)) + t10054) - t.x)))
-  let t10068 := (t.y + (angleMod ((((884279719003555 : α) / (281474976710656 : α)) - t10056) - t.y)))
-  let t10070 := (t.z + (angleMod ((((884279719003555 : α) / (281474976710656 : α)) + t10058) - t.z)))
-  let t10071 := (t10058 - t.z)
-  let t10072 := (t10056 - t.y)
-  let t10073 := (t10054 - t.x)
-  let t10074 := (t10070 - t.z)
-  let t10075 := (t10068 - t.y)
-  let t10076 := (t10066 - t.x)
-  let t10122 := (((t10072 * t10072) + (t10071 * t10071)) + (t10073 * t10073))
-  let t10124 := (((t10075 * t10075) + (t10074 * t10074)) + (t10076 * t10076))
-  if t10124 < t10122 then
-    (⟨t10066, t10068, t10070⟩, (8449 : Int))
+  let t10117 := (t.x + (angleMod (a.x - t.x)))
+  let t10119 := (t.y + (angleMod (a.y - t.y)))
+  let t10121 := (t.z + (angleMod (a.z - t.z)))
+  let t10129 := (t.x + (angleMod ((((884279719003555 : α) / (281474976710656 : α)) + t10117) - t.x)))
+  let t10131 := (t.y + (angleMod ((((884279719003555 : α) / (281474976710656 : α)) - t10119) - t.y)))
+  let t10133 := (t.z + (angleMod ((((884279719003555 : α) / (281474976710656 : α)) + t10121) - t.z)))
+  let t10134 := (t10121 - t.z)
+  let t10135 := (t10119 - t.y)
+  let t10136 := (t10117 - t.x)
+  let t10137 := (t10133 - t.z)
+  let t10138 := (t10131 - t.y)
+  let t10139 := (t10129 - t.x)
+  let t10185 := (((t10135 * t10135) + (t10134 * t10134)) + (t10136 * t10136))
+  let t10187 := (((t10138 * t10138) + (t10137 * t10137)) + (t10139 * t10139))
+  if t10187 < t10185 then
+    (⟨t10129, t10131, t10133⟩, (8449 : Int))
   else
-    (⟨t10054, t10056, t10058⟩, (8449 : Int))
+    (⟨t10117, t10119, t10121⟩, (8449 : Int))
 
 /-- extracted from the C++ template at T = Sym; 2 path(s) -/
 def Euler.nearestRotation_ZYX {α : Type} [Add α] [Sub α] [Mul α] [Div α] [LT α] [DecidableLT α] [OfNat α 281474976710656] [OfNat α 884279719003555] (angleMod : α → α) (xyzRot : V3 α) (target : V3 α) : (V3 α) :=
-  let t10013 := (target.x + (angleMod (xyzRot.x - target.x)))
-  let t10015 := (target.y + (angleMod (xyzRot.y - target.y)))
-  let t10017 := (target.z + (angleMod (xyzRot.z - target.z)))
-  let t10026 := (target.x + (angleMod ((((884279719003555 : α) / (281474976710656 : α)) + t10013) - target.x)))
-  let t10028 := (target.y + (angleMod ((((884279719003555 : α) / (281474976710656 : α)) - t10015) - target.y)))
-  let t10030 := (target.z + (angleMod ((((884279719003555 : α) / (281474976710656 : α)) + t10017) - target.z)))
-  let t10031 := (t10017 - target.z)
-  let t10032 := (t10015 - target.y)
-  let t10033 := (t10013 - target.x)
-  let t10034 := (t10030 - target.z)
-  let t10035 := (t10028 - target.y)
-  let t10036 := (t10026 - target.x)
-  let t10041 := (((t10033 * t10033) + (t10032 * t10032)) + (t10031 * t10031))
-  let t10046 := (((t10036 * t10036) + (t10035 * t10035)) + (t10034 * t10034))
-  if t10046 < t10041 then
-    ⟨t10026, t10028, t10030⟩
+  let t10076 := (target.x + (angleMod (xyzRot.x - target.x)))
+  let t10078 := (target.y + (angleMod (xyzRot.y - target.y)))
+  let t10080 := (target.z + (angleMod (xyzRot.z - target.z)))
+  let t10089 := (target.x + (angleMod ((((884279719003555 : α) / (281474976710656 : α)) + t10076) - target.x)))
+  let t10091 := (target.y + (angleMod ((((884279719003555 : α) / (281474976710656 : α)) - t10078) - target.y)))
+  let t10093 := (target.z + (angleMod ((((884279719003555 : α) / (281474976710656 : α)) + t10080) - target.z)))
+  let t10094 := (t10080 - target.z)
+  let t10095 := (t10078 - target.y)
+  let t10096 := (t10076 - target.x)
+  let t10097 := (t10093 - target.z)
+  let t10098 := (t10091 - target.y)
+  let t10099 := (t10089 - target.x)
+  let t10104 := (((t10096 * t10096) + (t10095 * t10095)) + (t10094 * t10094))
+  let t10109 := (((t10099 * t10099) + (t10098 * t10098)) + (t10097 * t10097))
+  if t10109 < t10104 then
+    ⟨t10089, t10091, t10093⟩
   else
-    ⟨t10013, t10015, t10017⟩
+    ⟨t10076, t10078, t10080⟩
 
 /-- extracted from the C++ template at T = Sym; 2 path(s) -/
 def Euler.makeNear_ZYX {α : Type} [Add α] [Sub α] [Mul α] [Div α] [LT α] [DecidableLT α] [OfNat α 281474976710656] [OfNat α 884279719003555] (angleMod : α → α) (a : V3 α) (t : V3 α) : ((V3 α) × Int) :=
-  let t10054 := (t.x + (angleMod (a.x - t.x)))
-  let t10056 := (t.y + (angleMod (a.y - t.y)))
-  let t10058 := (t.z + (angleMod (a.z - t.z)))
-  let t10066 := (t.x + (angleMod ((((884279719003555 : α) / (281474976710656 : α)) + t10054) - t.x)))
-  let t10068 := (t.y + (angleMod ((((884279719003555 : α) / (281474976710656 : α)) - t10056) - t.y)))
-  let t10070 := (t.z + (angleMod ((((884279719003555 : α) / (281474976710656 : α)) + t10058) - t.z)))
-  let t10071 := (t10058 - t.z)
-  let t10072 := (t10056 - t.y)
-  let t10073 := (t10054 - t.x)
-  let t10074 := (t10070 - t.z)
-  let t10075 := (t10068 - t.y)
-  let t10076 := (t10066 - t.x)
-  let t10126 := (((t10071 * t10071) + (t10072 * t10072)) + (t10073 * t10073))
-  let t10128 := (((t10074 * t10074) + (t10075 * t10075)) + (t10076 * t10076))
-  if t10128 < t10126 then
-    (⟨t10066, t10068, t10070⟩, (8193 : Int))
+  let t10117 := (t.x + (angleMod (a.x - t.x)))
+  let t10119 := (t.y + (angleMod (a.y - t.y)))
+  let t10121 := (t.z + (angleMod (a.z - t.z)))
+  let t10129 := (t.x + (angleMod ((((884279719003555 : α) / (281474976710656 : α)) + t10117) - t.x)))
+  let t10131 := (t.y + (angleMod ((((884279719003555 : α) / (281474976710656 : α)) - t10119) - t.y)))
+  let t10133 := (t.z + (angleMod ((((884279719003555 : α) / (281474976710656 : α)) + t10121) - t.z)))
+  let t10134 := (t10121 - t.z)
+  let t10135 := (t10119 - t.y)
+  let t10136 := (t10117 - t.x)
+  let t10137 := (t10133 - t.z)
+  let t10138 := (t10131 - t.y)
+  let t10139 := (t10129 - t.x)
+  let t10189 := (((t10134 * t10134) + (t10135 * t10135)) + (t10136 * t10136))
+  let t10191 := (((t10137 * t10137) + (t10138 * t10138)) + (t10139 * t10139))
+  if t10191 < t10189 then
+    (⟨t10129, t10131, t10133⟩, (8193 : Int))
   else
-    (⟨t10054, t10056, t10058⟩, (8193 : Int))
+    (⟨t10117, t10119, t10121⟩, (8193 : Int))
 
 /-- extracted from the C++ template at T = Sym; 2 path(s) -/
 def Euler.nearestRotation_XZX {α : Type} [Add α] [Sub α] [Mul α] [Div α] [LT α] [DecidableLT α] [OfNat α 281474976710656] [OfNat α 884279719003555] (angleMod : α → α) (xyzRot : V3 α) (target : V3 α) : (V3 α) :=
-  let t10013 := (target.x + (angleMod (xyzRot.x - target.x)))
-  let t10015 := (target.y + (angleMod (xyzRot.y - target.y)))
-  let t10017 := (target.z + (angleMod (xyzRot.z - target.z)))
-  let t10026 := (target.x + (angleMod ((((884279719003555 : α) / (281474976710656 : α)) + t10013) - target.x)))
-  let t10031 := (t10017 - target.z)
-  let t10032 := (t10015 - target.y)
-  let t10033 := (t10013 - target.x)
-  let t10036 := (t10026 - target.x)
-  let t10041 := (((t10033 * t10033) + (t10032 * t10032)) + (t10031 * t10031))
-  let t10092 := (target.y + (angleMod ((((884279719003555 : α) / (281474976710656 : α)) + t10015) - target.y)))
-  let t10094 := (target.z + (angleMod ((((884279719003555 : α) / (281474976710656 : α)) - t10017) - target.z)))
-  let t10095 := (t10094 - target.z)
-  let t10096 := (t10092 - target.y)
-  let t10100 := (((t10036 * t10036) + (t10096 * t10096)) + (t10095 * t10095))
-  if t10100 < t10041 then
-    ⟨t10026, t10092, t10094⟩
+  let t10076 := (target.x + (angleMod (xyzRot.x - target.x)))
+  let t10078 := (target.y + (angleMod (xyzRot.y - target.y)))
+  let t10080 := (target.z + (angleMod (xyzRot.z - target.z)))
+  let t10089 := (target.x + (angleMod ((((884279719003555 : α) / (281474976710656 : α)) + t10076) - target.x)))
+  let t10094 := (t10080 - target.z)
+  let t10095 := (t10078 - target.y)
+  let t10096 := (t10076 - target.x)
+  let t10099 := (t10089 - target.x)
+  let t10104 := (((t10096 * t10096) + (t10095 * t10095)) + (t10094 * t10094))
+  let t10155 := (target.y + (angleMod ((((884279719003555 : α) / (281474976710656 : α)) + t10078) - target.y)))
+  let t10157 := (target.z + (angleMod ((((884279719003555 : α) / (281474976710656 : α)) - t10080) - target.z)))
+  let t10158 := (t10157 - target.z)
+  let t10159 := (t10155 - target.y)
+  let t10163 := (((t10099 * t10099) + (t10159 * t10159)) + (t10158 * t10158))
+  if t10163 < t10104 then
+    ⟨t10089, t10155, t10157⟩
   else
-    ⟨t10013, t10015, t10017⟩
+    ⟨t10076, t10078, t10080⟩
 
 /-- extracted from the C++ template at T = Sym; 2 path(s) -/
 def Euler.makeNear_XZX {α : Type} [Add α] [Sub α] [Mul α] [Div α] [LT α] [DecidableLT α] [OfNat α 281474976710656] [OfNat α 884279719003555] (angleMod : α → α) (a : V3 α) (t : V3 α) : ((V3 α) × Int) :=
-  let t10054 := (t.x + (angleMod (a.x - t.x)))
-  let t10056 := (t.y + (angleMod (a.y - t.y)))
-  let t10058 := (t.z + (angleMod (a.z - t.z)))
-  let t10066 := (t.x + (angleMod ((((884279719003555 : α) / (281474976710656 : α)) + t10054) - t.x)))
-  let t10068 := (t.y + (angleMod ((((884279719003555 : α) / (281474976710656 : α)) - t10056) - t.y)))
-  let t10070 := (t.z + (angleMod ((((884279719003555 : α) / (281474976710656 : α)) + t10058) - t.z)))
-  let t10071 := (t10058 - t.z)
-  let t10072 := (t10056 - t.y)
-  let t10073 := (t10054 - t.x)
-  let t10074 := (t10070 - t.z)
-  let t10075 := (t10068 - t.y)
-  let t10076 := (t10066 - t.x)
-  let t10102 := (((t10073 * t10073) + (t10071 * t10071)) + (t10072 * t10072))
-  let t10104 := (((t10076 * t10076) + (t10074 * t10074)) + (t10075 * t10075))
-  if t10104 < t10102 then
-    (⟨t10066, t10068, t10070⟩, (17 : Int))
+  let t10117 := (t.x + (angleMod (a.x - t.x)))
+  let t10119 := (t.y + (angleMod (a.y - t.y)))
+  let t10121 := (t.z + (angleMod (a.z - t.z)))
+  let t10129 := (t.x + (angleMod ((((884279719003555 : α) / (281474976710656 : α)) + t10117) - t.x)))
+  let t10131 := (t.y + (angleMod ((((884279719003555 : α) / (281474976710656 : α)) - t10119) - t.y)))
+  let t10133 := (t.z + (angleMod ((((884279719003555 : α) / (281474976710656 : α)) + t10121) - t.z)))
+  let t10134 := (t10121 - t.z)
+  let t10135 := (t10119 - t.y)
+  let t10136 := (t10117 - t.x)
+  let t10137 := (t10133 - t.z)
+  let t10138 := (t10131 - t.y)
+  let t10139 := (t10129 - t.x)
+  let t10165 := (((t10136 * t10136) + (t10134 * t10134)) + (t10135 * t10135))
+  let t10167 := (((t10139 * t10139) + (t10137 * t10137)) + (t10138 * t10138))
+  if t10167 < t10165 then
+    (⟨t10129, t10131, t10133⟩, (17 : Int))
   else
-    (⟨t10054, t10056, t10058⟩, (17 : Int))
+    (⟨t10117, t10119, t10121⟩, (17 : Int))
 
 /-- extracted from the C++ template at T = Sym; 2 path(s) -/
 def Euler.nearestRotation_XYX {α : Type} [Add α] [Sub α] [Mul α] [Div α] [LT α] [DecidableLT α] [OfNat α 281474976710656] [OfNat α 884279719003555] (angleMod : α → α) (xyzRot : V3 α) (target : V3 α) : (V3 α) :=
-  let t10013 := (target.x + (angleMod (xyzRot.x - target.x)))
-  let t10015 := (target.y + (angleMod (xyzRot.y - target.y)))
-  let t10017 := (target.z + (angleMod (xyzRot.z - target.z)))
-  let t10026 := (target.x + (angleMod ((((884279719003555 : α) / (281474976710656 : α)) + t10013) - target.x)))
-  let t10028 := (target.y + (angleMod ((((884279719003555 : α) / (281474976710656 : α)) - t10015) - target.y)))
-  let t10030 := (target.z + (angleMod ((((884279719003555 : α) / (281474976710656 : α)) + t10017) - target.z)))
-  let t10031 := (t10017 - target.z)
-  let t10032 := (t10015 - target.y)
-  let t10033 := (t10013 - target.x)
-  let t10034 := (t10030 - target.z)
-  let t10035 := (t10028 - target.y)
-  let t10036 := (t10026 - target.x)
-  let t10041 := (((t10033 * t10033) + (t10032 * t10032)) + (t10031 * t10031))
-  let t10046 := (((t10036 * t10036) + (t10035 * t10035)) + (t10034 * t10034))
-  if t10046 < t10041 then
-    ⟨t10026, t10028, t10030⟩
+  let t10076 := (target.x + (angleMod (xyzRot.x - target.x)))
+  let t10078 := (target.y + (angleMod (xyzRot.y - target.y)))
+  let t10080 := (target.z + (angleMod (xyzRot.z - target.z)))
+  let t10089 := (target.x + (angleMod ((((884279719003555 : α) / (281474976710656 : α)) + t10076) - target.x)))
+  let t10091 := (target.y + (angleMod ((((884279719003555 : α) / (281474976710656 : α)) - t10078) - target.y)))
+  let t10093 := (target.z + (angleMod ((((884279719003555 : α) / (281474976710656 : α)) + t10080) - target.z)))
+  let t10094 := (t10080 - target.z)
+  let t10095 := (t10078 - target.y)
+  let t10096 := (t10076 - target.x)
+  let t10097 := (t10093 - target.z)
+  let t10098 := (t10091 - target.y)
+  let t10099 := (t10089 - target.x)
+  let t10104 := (((t10096 * t10096) + (t10095 * t10095)) + (t10094 * t10094))
+  let t10109 := (((t10099 * t10099) + (t10098 * t10098)) + (t10097 * t10097))
+  if t10109 < t10104 then
+    ⟨t10089, t10091, t10093⟩
   else
-    ⟨t10013, t10015, t10017⟩
+    ⟨t10076, t10078, t10080⟩
 
 /-- extracted from the C++ template at T = Sym; 2 path(s) -/
 def Euler.makeNear_XYX {α : Type} [Add α] [Sub α] [Mul α] [Div α] [LT α] [DecidableLT α] [OfNat α 281474976710656] [OfNat α 884279719003555] (angleMod : α → α) (a : V3 α) (t : V3 α) : ((V3 α) × Int) :=
-  let t10054 := (t.x + (angleMod (a.x - t.x)))
-  let t10056 := (t.y + (angleMod (a.y - t.y)))
-  let t10058 := (t.z + (angleMod (a.z - t.z)))
-  let t10066 := (t.x + (angleMod ((((884279719003555 : α) / (281474976710656 : α)) + t10054) - t.x)))
-  let t10068 := (t.y + (angleMod ((((884279719003555 : α) / (281474976710656 : α)) - t10056) - t.y)))
-  let t10070 := (t.z + (angleMod ((((884279719003555 : α) / (281474976710656 : α)) + t10058) - t.z)))
-  let t10071 := (t10058 - t.z)
-  let t10072 := (t10056 - t.y)
-  let t10073 := (t10054 - t.x)
-  let t10074 := (t10070 - t.z)
-  let t10075 := (t10068 - t.y)
-  let t10076 := (t10066 - t.x)
-  let t10081 := (((t10073 * t10073) + (t10072 * t10072)) + (t10071 * t10071))
-  let t10086 := (((t10076 * t10076) + (t10075 * t10075)) + (t10074 * t10074))
-  if t10086 < t10081 then
-    (⟨t10066, t10068, t10070⟩, (273 : Int))
+  let t10117 := (t.x + (angleMod (a.x - t.x)))
+  let t10119 := (t.y + (angleMod (a.y - t.y)))
+  let t10121 := (t.z + (angleMod (a.z - t.z)))
+  let t10129 := (t.x + (angleMod ((((884279719003555 : α) / (281474976710656 : α)) + t10117) - t.x)))
+  let t10131 := (t.y + (angleMod ((((884279719003555 : α) / (281474976710656 : α)) - t10119) - t.y)))
+  let t10133 := (t.z + (angleMod ((((884279719003555 : α) / (281474976710656 : α)) + t10121) - t.z)))
+  let t10134 := (t10121 - t.z)
+  let t10135 := (t10119 - t.y)
+  let t10136 := (t10117 - t.x)
+  let t10137 := (t10133 - t.z)
+  let t10138 := (t10131 - t.y)
+  let t10139 := (t10129 - t.x)
+  let t10144 := (((t10136 * t10136) + (t10135 * t10135)) + (t10134 * t10134))
+  let t10149 := (((t10139 * t10139) + (t10138 * t10138)) + (t10137 * t10137))
+  if t10149 < t10144 then
+    (⟨t10129, t10131, t10133⟩, (273 : Int))
   else
-    (⟨t10054, t10056, t10058⟩, (273 : Int))
+    (⟨t10117, t10119, t10121⟩, (273 : Int))
 
 /-- extracted from the C++ template at T = Sym; 2 path(s) -/
 def Euler.nearestRotation_YXY {α : Type} [Add α] [Sub α] [Mul α] [Div α] [LT α] [DecidableLT α] [OfNat α 281474976710656] [OfNat α 884279719003555] (angleMod : α → α) (xyzRot : V3 α) (target : V3 α) : (V3 α) :=
-  let t10013 := (target.x + (angleMod (xyzRot.x - target.x)))
-  let t10015 := (target.y + (angleMod (xyzRot.y - target.y)))
-  let t10017 := (target.z + (angleMod (xyzRot.z - target.z)))
-  let t10030 := (target.z + (angleMod ((((884279719003555 : α) / (281474976710656 : α)) + t10017) - target.z)))
-  let t10031 := (t10017 - target.z)
-  let t10032 := (t10015 - target.y)
-  let t10033 := (t10013 - target.x)
-  let t10034 := (t10030 - target.z)
-  let t10041 := (((t10033 * t10033) + (t10032 * t10032)) + (t10031 * t10031))
-  let t10092 := (target.y + (angleMod ((((884279719003555 : α) / (281474976710656 : α)) + t10015) - target.y)))
-  let t10096 := (t10092 - target.y)
-  let t10112 := (target.x + (angleMod ((((884279719003555 : α) / (281474976710656 : α)) - t10013) - target.x)))
-  let t10113 := (t10112 - target.x)
-  let t10116 := (((t10113 * t10113) + (t10096 * t10096)) + (t10034 * t10034))
-  if t10116 < t10041 then
-    ⟨t10112, t10092, t10030⟩
+  let t10076 := (target.x + (angleMod (xyzRot.x - target.x)))
+  let t10078 := (target.y + (angleMod (xyzRot.y - target.y)))
+  let t10080 := (target.z + (angleMod (xyzRot.z - target.z)))
+  let t10093 := (target.z + (angleMod ((((884279719003555 : α) / (281474976710656 : α)) + t10080) - target.z)))
+  let t10094 := (t10080 - target.z)
+  let t10095 := (t10078 - target.y)
+  let t10096 := (t10076 - target.x)
+  let t10097 := (t10093 - target.z)
+  let t10104 := (((t10096 * t10096) + (t10095 * t10095)) + (t10094 * t10094))
+  let t10155 := (target.y + (angleMod ((((884279719003555 : α) / (281474976710656 : α)) + t10078) - target.y)))
+  let t10159 := (t10155 - target.y)
+  let t10175 := (target.x + (angleMod ((((884279719003555 : α) / (281474976710656 : α)) - t10076) - target.x)))
+  let t10176 := (t10175 - target.x)
+  let t10179 := (((t10176 * t10176) + (t10159 * t10159)) + (t10097 * t10097))
+  if t10179 < t10104 then
+    ⟨t10175, t10155, t10093⟩
   else
-    ⟨t10013, t10015, t10017⟩
+    ⟨t10076, t10078, t10080⟩
 
 /-- extracted from the C++ template at T = Sym; 2 path(s) -/
 def Euler.makeNear_YXY {α : Type} [Add α] [Sub α] [Mul α] [Div α] [LT α] [DecidableLT α] [OfNat α 281474976710656] [OfNat α 884279719003555] (angleMod : α → α) (a : V3 α) (t : V3 α) : ((V3 α) × Int) :=
-  let t10054 := (t.x + (angleMod (a.x - t.x)))
-  let t10056 := (t.y + (angleMod (a.y - t.y)))
-  let t10058 := (t.z + (angleMod (a.z - t.z)))
-  let t10066 := (t.x + (angleMod ((((884279719003555 : α) / (281474976710656 : α)) + t10054) - t.x)))
-  let t10068 := (t.y + (angleMod ((((884279719003555 : α) / (281474976710656 : α)) - t10056) - t.y)))
-  let t10070 := (t.z + (angleMod ((((884279719003555 : α) / (281474976710656 : α)) + t10058) - t.z)))
-  let t10071 := (t10058 - t.z)
-  let t10072 := (t10056 - t.y)
-  let t10073 := (t10054 - t.x)
-  let t10074 := (t10070 - t.z)
-  let t10075 := (t10068 - t.y)
-  let t10076 := (t10066 - t.x)
-  let t10118 := (((t10072 * t10072) + (t10073 * t10073)) + (t10071 * t10071))
-  let t10120 := (((t10075 * t10075) + (t10076 * t10076)) + (t10074 * t10074))
-  if t10120 < t10118 then
-    (⟨t10066, t10068, t10070⟩, (4113 : Int))
+  let t10117 := (t.x + (angleMod (a.x - t.x)))
+  let t10119 := (t.y + (angleMod (a.y - t.y)))
+  let t10121 := (t.z + (angleMod (a.z - t.z)))
+  let t10129 := (t.x + (angleMod ((((884279719003555 : α) / (281474976710656 : α)) + t10117) - t.x)))
+  let t10131 := (t.y + (angleMod ((((884279719003555 : α) / (281474976710656 : α)) - t10119) - t.y)))
+  let t10133 := (t.z + (angleMod ((((884279719003555 : α) / (281474976710656 : α)) + t10121) - t.z)))
+  let t10134 := (t10121 - t.z)
+  let t10135 := (t10119 - t.y)
+  let t10136 := (t10117 - t.x)
+  let t10137 := (t10133 - t.z)
+  let t10138 := (t10131 - t.y)
+  let t10139 := (t10129 - t.x)
+  let t10181 := (((t10135 * t10135) + (t10136 * t10136)) + (t10134 * t10134))
+  let t10183 := (((t10138 * t10138) + (t10139 * t10139)) + (t10137 * t10137))
+  if t10183 < t10181 then
+    (⟨t10129, t10131, t10133⟩, (4113 : Int))
   else
-    (⟨t10054, t10056, t10058⟩, (4113 : Int))
+    (⟨t10117, t10119, t10121⟩, (4113 : Int))
 
 /-- extracted from the C++ template at T = Sym; 2 path(s) -/
 def Euler.nearestRotation_YZY {α : Type} [Add α] [Sub α] [Mul α] [Div α] [LT α] [DecidableLT α] [OfNat α 281474976710656] [OfNat α 884279719003555] (angleMod : α → α) (xyzRot : V3 α) (target : V3 α) : (V3 α) :=
-  let t10013 := (target.x + (angleMod (xyzRot.x - target.x)))
-  let t10015 := (target.y + (angleMod (xyzRot.y - target.y)))
-  let t10017 := (target.z + (angleMod (xyzRot.z - target.z)))
-  let t10026 := (target.x + (angleMod ((((884279719003555 : α) / (281474976710656 : α)) + t10013) - target.x)))
-  let t10031 := (t10017 - target.z)
-  let t10032 := (t10015 - target.y)
-  let t10033 := (t10013 - target.x)
-  let t10036 := (t10026 - target.x)
-  let t10041 := (((t10033 * t10033) + (t10032 * t10032)) + (t10031 * t10031))
-  let t10092 := (target.y + (angleMod ((((884279719003555 : α) / (281474976710656 : α)) + t10015) - target.y)))
-  let t10094 := (target.z + (angleMod ((((884279719003555 : α) / (281474976710656 : α)) - t10017) - target.z)))
-  let t10095 := (t10094 - target.z)
-  let t10096 := (t10092 - target.y)
-  let t10100 := (((t10036 * t10036) + (t10096 * t10096)) + (t10095 * t10095))
-  if t10100 < t10041 then
-    ⟨t10026, t10092, t10094⟩
+  let t10076 := (target.x + (angleMod (xyzRot.x - target.x)))
+  let t10078 := (target.y + (angleMod (xyzRot.y - target.y)))
+  let t10080 := (target.z + (angleMod (xyzRot.z - target.z)))
+  let t10089 := (target.x + (angleMod ((((884279719003555 : α) / (281474976710656 : α)) + t10076) - target.x)))
+  let t10094 := (t10080 - target.z)
+  let t10095 := (t10078 - target.y)
+  let t10096 := (t10076 - target.x)
+  let t10099 := (t10089 - target.x)
+  let t10104 := (((t10096 * t10096) + (t10095 * t10095)) + (t10094 * t10094))
+  let t10155 := (target.y + (angleMod ((((884279719003555 : α) / (281474976710656 : α)) + t10078) - target.y)))
+  let t10157 := (target.z + (angleMod ((((884279719003555 : α) / (281474976710656 : α)) - t10080) - target.z)))
+  let t10158 := (t10157 - target.z)
+  let t10159 := (t10155 - target.y)
+  let t10163 := (((t10099 * t10099) + (t10159 * t10159)) + (t10158 * t10158))
+  if t10163 < t10104 then
+    ⟨t10089, t10155, t10157⟩
   else
-    ⟨t10013, t10015, t10017⟩
+    ⟨t10076, t10078, t10080⟩
 
 /-- extracted from the C++ template at T = Sym; 2 path(s) -/
 def Euler.makeNear_YZY {α : Type} [Add α] [Sub α] [Mul α] [Div α] [LT α] [DecidableLT α] [OfNat α 281474976710656] [OfNat α 884279719003555] (angleMod : α → α) (a : V3 α) (t : V3 α) : ((V3 α) × Int) :=
-  let t10054 := (t.x + (angleMod (a.x - t.x)))
-  let t10056 := (t.y + (angleMod (a.y - t.y)))
-  let t10058 := (t.z + (angleMod (a.z - t.z)))
-  let t10066 := (t.x + (angleMod ((((884279719003555 : α) / (281474976710656 : α)) + t10054) - t.x)))
-  let t10068 := (t.y + (angleMod ((((884279719003555 : α) / (281474976710656 : α)) - t10056) - t.y)))
-  let t10070 := (t.z + (angleMod ((((884279719003555 : α) / (281474976710656 : α)) + t10058) - t.z)))
-  let t10071 := (t10058 - t.z)
-  let t10072 := (t10056 - t.y)
-  let t10073 := (t10054 - t.x)
-  let t10074 := (t10070 - t.z)
-  let t10075 := (t10068 - t.y)
-  let t10076 := (t10066 - t.x)
-  let t10106 := (((t10071 * t10071) + (t10073 * t10073)) + (t10072 * t10072))
-  let t10108 := (((t10074 * t10074) + (t10076 * t10076)) + (t10075 * t10075))
-  if t10108 < t10106 then
-    (⟨t10066, t10068, t10070⟩, (4369 : Int))
+  let t10117 := (t.x + (angleMod (a.x - t.x)))
+  let t10119 := (t.y + (angleMod (a.y - t.y)))
+  let t10121 := (t.z + (angleMod (a.z - t.z)))
+  let t10129 := (t.x + (angleMod ((((884279719003555 : α) / (281474976710656 : α)) + t10117) - t.x)))
+  let t10131 := (t.y + (angleMod ((((884279719003555 : α) / (281474976710656 : α)) - t10119) - t.y)))
+  let t10133 := (t.z + (angleMod ((((884279719003555 : α) / (281474976710656 : α)) + t10121) - t.z)))
+  let t10134 := (t10121 - t.z)
+  let t10135 := (t10119 - t.y)
+  let t10136 := (t10117 - t.x)
+  let t10137 := (t10133 - t.z)
+  let t10138 := (t10131 - t.y)
+  let t10139 := (t10129 - t.x)
+  let t10169 := (((t10134 * t10134) + (t10136 * t10136)) + (t10135 * t10135))
+  let t10171 := (((t10137 * t10137) + (t10139 * t10139)) + (t10138 * t10138))
+  if t10171 < t10169 then
+    (⟨t10129, t10131, t10133⟩, (4369 : Int))
   else
-    (⟨t10054, t10056, t10058⟩, (4369 : Int))
+    (⟨t10117, t10119, t10121⟩, (4369 : Int))
 
 /-- extracted from the C++ template at T = Sym; 2 path(s) -/
 def Euler.nearestRotation_ZYZ {α : Type} [Add α] [Sub α] [Mul α] [Div α] [LT α] [DecidableLT α] [OfNat α 281474976710656] [OfNat α 884279719003555] (angleMod : α → α) (xyzRot : V3 α) (target : V3 α) : (V3 α) :=
-  let t10013 := (target.x + (angleMod (xyzRot.x - target.x)))
-  let t10015 := (target.y + (angleMod (xyzRot.y - target.y)))
-  let t10017 := (target.z + (angleMod (xyzRot.z - target.z)))
-  let t10026 := (target.x + (angleMod ((((884279719003555 : α) / (281474976710656 : α)) + t10013) - target.x)))
-  let t10028 := (target.y + (angleMod ((((884279719003555 : α) / (281474976710656 : α)) - t10015) - target.y)))
-  let t10030 := (target.z + (angleMod ((((884279719003555 : α) / (281474976710656 : α)) + t10017) - target.z)))
-  let t10031 := (t10017 - target.z)
-  let t10032 := (t10015 - target.y)
-  let t10033 := (t10013 - target.x)
-  let t10034 := (t10030 - target.z)
-  let t10035 := (t10028 - target.y)
-  let t10036 := (t10026 - target.x)
-  let t10041 := (((t10033 * t10033) + (t10032 * t10032)) + (t10031 * t10031))
-  let t10046 := (((t10036 * t10036) + (t10035 * t10035)) + (t10034 * t10034))
-  if t10046 < t10041 then
-    ⟨t10026, t10028, t10030⟩
+  let t10076 := (target.x + (angleMod (xyzRot.x - target.x)))
+  let t10078 := (target.y + (angleMod (xyzRot.y - target.y)))
+  let t10080 := (target.z + (angleMod (xyzRot.z - target.z)))
+  let t10089 := (target.x + (angleMod ((((884279719003555 : α) / (281474976710656 : α)) + t10076) - target.x)))
+  let t10091 := (target.y + (angleMod ((((884279719003555 : α) / (281474976710656 : α)) - t10078) - target.y)))
+  let t10093 := (target.z + (angleMod ((((884279719003555 : α) / (281474976710656 : α)) + t10080) - target.z)))
+  let t10094 := (t10080 - target.z)
+  let t10095 := (t10078 - target.y)
+  let t10096 := (t10076 - target.x)
+  let t10097 := (t10093 - target.z)
+  let t10098 := (t10091 - target.y)
+  let t10099 := (t10089 - target.x)
+  let t10104 := (((t10096 * t10096) + (t10095 * t10095)) + (t10094 * t10094))
+  let t10109 := (((t10099 * t10099) + (t10098 * t10098)) + (t10097 * t10097))
+  if t10109 < t10104 then
+    ⟨t10089, t10091, t10093⟩
   else
-    ⟨t10013, t10015, t10017⟩
+    ⟨t10076, t10078, t10080⟩
 
 /-- extracted from the C++ template at T = Sym; 2 path(s) -/
 def Euler.makeNear_ZYZ {α : Type} [Add α] [Sub α] [Mul α] [Div α] [LT α] [DecidableLT α] [OfNat α 281474976710656] [OfNat α 884279719003555] (angleMod : α → α) (a : V3 α) (t : V3 α) : ((V3 α) × Int) :=
-  let t10054 := (t.x + (angleMod (a.x - t.x)))
-  let t10056 := (t.y + (angleMod (a.y - t.y)))
-  let t10058 := (t.z + (angleMod (a.z - t.z)))
-  let t10066 := (t.x + (angleMod ((((884279719003555 : α) / (281474976710656 : α)) + t10054) - t.x)))
-  let t10068 := (t.y + (angleMod ((((884279719003555 : α) / (281474976710656 : α)) - t10056) - t.y)))
-  let t10070 := (t.z + (angleMod ((((884279719003555 : α) / (281474976710656 : α)) + t10058) - t.z)))
-  let t10071 := (t10058 - t.z)
-  let t10072 := (t10056 - t.y)
-  let t10073 := (t10054 - t.x)
-  let t10074 := (t10070 - t.z)
-  let t10075 := (t10068 - t.y)
-  let t10076 := (t10066 - t.x)
-  let t10126 := (((t10071 * t10071) + (t10072 * t10072)) + (t10073 * t10073))
-  let t10128 := (((t10074 * t10074) + (t10075 * t10075)) + (t10076 * t10076))
-  if t10128 < t10126 then
-    (⟨t10066, t10068, t10070⟩, (8209 : Int))
+  let t10117 := (t.x + (angleMod (a.x - t.x)))
+  let t10119 := (t.y + (angleMod (a.y - t.y)))
+  let t10121 := (t.z + (angleMod (a.z - t.z)))
+  let t10129 := (t.x + (angleMod ((((884279719003555 : α) / (281474976710656 : α)) + t10117) - t.x)))
+  let t10131 := (t.y + (angleMod ((((884279719003555 : α) / (281474976710656 : α)) - t10119) - t.y)))
+  let t10133 := (t.z + (angleMod ((((884279719003555 : α) / (281474976710656 : α)) + t10121) - t.z)))
+  let t10134 := (t10121 - t.z)
+  let t10135 := (t10119 - t.y)
+  let t10136 := (t10117 - t.x)
+  let t10137 := (t10133 - t.z)
+  let t10138 := (t10131 - t.y)
+  let t10139 := (t10129 - t.x)
+  let t10189 := (((t10134 * t10134) + (t10135 * t10135)) + (t10136 * t10136))
+  let t10191 := (((t10137 * t10137) + (t10138 * t10138)) + (t10139 * t10139))
+  if t10191 < t10189 then
+    (⟨t10129, t10131, t10133⟩, (8209 : Int))
   else
-    (⟨t10054, t10056, t10058⟩, (8209 : Int))
+    (⟨t10117, t10119, t10121⟩, (8209 : Int))
 
 /-- extracted from the C++ template at T = Sym; 2 path(s) -/
 def Euler.nearestRotation_ZXZ {α : Type} [Add α] [Sub α] [Mul α] [Div α] [LT α] [DecidableLT α] [OfNat α 281474976710656] [OfNat α 884279719003555] (angleMod : α → α) (xyzRot : V3 α) (target : V3 α) : (V3 α) :=
-  let t10013 := (target.x + (angleMod (xyzRot.x - target.x)))
-  let t10015 := (target.y + (angleMod (xyzRot.y - target.y)))
-  let t10017 := (target.z + (angleMod (xyzRot.z - target.z)))
-  let t10030 := (target.z + (angleMod ((((884279719003555 : α) / (281474976710656 : α)) + t10017) - target.z)))
-  let t10031 := (t10017 - target.z)
-  let t10032 := (t10015 - target.y)
-  let t10033 := (t10013 - target.x)
-  let t10034 := (t10030 - target.z)
-  let t10041 := (((t10033 * t10033) + (t10032 * t10032)) + (t10031 * t10031))
-  let t10092 := (target.y + (angleMod ((((884279719003555 : α) / (281474976710656 : α)) + t10015) - target.y)))
-  let t10096 := (t10092 - target.y)
-  let t10112 := (target.x + (angleMod ((((884279719003555 : α) / (281474976710656 : α)) - t10013) - target.x)))
-  let t10113 := (t10112 - target.x)
-  let t10116 := (((t10113 * t10113) + (t10096 * t10096)) + (t10034 * t10034))
-  if t10116 < t10041 then
-    ⟨t10112, t10092, t10030⟩
+  let t10076 := (target.x + (angleMod (xyzRot.x - target.x)))
+  let t10078 := (target.y + (angleMod (xyzRot.y - target.y)))
+  let t10080 := (target.z + (angleMod (xyzRot.z - target.z)))
+  let t10093 := (target.z + (angleMod ((((884279719003555 : α) / (281474976710656 : α)) + t10080) - target.z)))
+  let t10094 := (t10080 - target.z)
+  let t10095 := (t10078 - target.y)
+  let t10096 := (t10076 - target.x)
+  let t10097 := (t10093 - target.z)
+  let t10104 := (((t10096 * t10096) + (t10095 * t10095)) + (t10094 * t10094))
+  let t10155 := (target.y + (angleMod ((((884279719003555 : α) / (281474976710656 : α)) + t10078) - target.y)))
+  let t10159 := (t10155 - target.y)
+  let t10175 := (target.x + (angleMod ((((884279719003555 : α) / (281474976710656 : α)) - t10076) - target.x)))
+  let t10176 := (t10175 - target.x)
+  let t10179 := (((t10176 * t10176) + (t10159 * t10159)) + (t10097 * t10097))
+  if t10179 < t10104 then
+    ⟨t10175, t10155, t10093⟩
   else
-    ⟨t10013, t10015, t10017⟩
+    ⟨t10076, t10078, t10080⟩
 
 /-- extracted from the C++ template at T = Sym; 2 path(s) -/
 def Euler.makeNear_ZXZ {α : Type} [Add α] [Sub α] [Mul α] [Div α] [LT α] [DecidableLT α] [OfNat α 281474976710656] [OfNat α 884279719003555] (angleMod : α → α) (a : V3 α) (t : V3 α) : ((V3 α) × Int) :=
-  let t10054 := (t.x + (angleMod (a.x - t.x)))
-  let t10056 := (t.y + (angleMod (a.y - t.y)))
-  let t10058 := (t.z + (angleMod (a.z - t.z)))
-  let t10066 := (t.x + (angleMod ((((884279719003555 : α) / (281474976710656 : α)) + t10054) - t.x)))
-  let t10068 := (t.y + (angleMod ((((884279719003555 : α) / (281474976710656 : α)) - t10056) - t.y)))
-  let t10070 := (t.z + (angleMod ((((884279719003555 : α) / (281474976710656 : α)) + t10058) - t.z)))
-  let t10071 := (t10058 - t.z)
-  let t10072 := (t10056 - t.y)
-  let t10073 := (t10054 - t.x)
-  let t10074 := (t10070 - t.z)
-  let t10075 := (t10068 - t.y)
-  let t10076 := (t10066 - t.x)
-  let t10122 := (((t10072 * t10072) + (t10071 * t10071)) + (t10073 * t10073))
-  let t10124 := (((t10075 * t10075) + (t10074 * t10074)) + (t10076 * t10076))
-  if t10124 < t10122 then
-    (⟨t10066, t10068, t10070⟩, (8465 : Int))
+  let t10117 := (t.x + (angleMod (a.x - t.x)))
+  let t10119 := (t.y + (angleMod (a.y - t.y)))
+  let t10121 := (t.z + (angleMod (a.z - t.z)))
+  let t10129 := (t.x + (angleMod ((((884279719003555 : α) / (281474976710656 : α)) + t10117) - t.x)))
+  let t10131 := (t.y + (angleMod ((((884279719003555 : α) / (281474976710656 : α)) - t10119) - t.y)))
+  let t10133 := (t.z + (angleMod ((((884279719003555 : α) / (281474976710656 : α)) + t10121) - t.z)))
+  let t10134 := (t10121 - t.z)
+  let t10135 := (t10119 - t.y)
+  let t10136 := (t10117 - t.x)
+  let t10137 := (t10133 - t.z)
+  let t10138 := (t10131 - t.y)
+  let t10139 := (t10129 - t.x)
+  let t10185 := (((t10135 * t10135) + (t10134 * t10134)) + (t10136 * t10136))
+  let t10187 := (((t10138 * t10138) + (t10137 * t10137)) + (t10139 * t10139))
+  if t10187 < t10185 then
+    (⟨t10129, t10131, t10133⟩, (8465 : Int))
   else
-    (⟨t10054, t10056, t10058⟩, (8465 : Int))
+    (⟨t10117, t10119, t10121⟩, (8465 : Int))
 
 /-- extracted from the C++ template at T = Sym; 2 path(s) -/
 def Euler.nearestRotation_XYZr {α : Type} [Add α] [Sub α] [Mul α] [Div α] [LT α] [DecidableLT α] [OfNat α 281474976710656] [OfNat α 884279719003555] (angleMod : α → α) (xyzRot : V3 α) (target : V3 α) : (V3 α) :=
-  let t10013 := (target.x + (angleMod (xyzRot.x - target.x)))
-  let t10015 := (target.y + (angleMod (xyzRot.y - target.y)))
-  let t10017 := (target.z + (angleMod (xyzRot.z - target.z)))
-  let t10026 := (target.x + (angleMod ((((884279719003555 : α) / (281474976710656 : α)) + t10013) - target.x)))
-  let t10028 := (target.y + (angleMod ((((884279719003555 : α) / (281474976710656 : α)) - t10015) - target.y)))
-  let t10030 := (target.z + (angleMod ((((884279719003555 : α) / (281474976710656 : α)) + t10017) - target.z)))
-  let t10031 := (t10017 - target.z)
-  let t10032 := (t10015 - target.y)
-  let t10033 := (t10013 - target.x)
-  let t10034 := (t10030 - target.z)
-  let t10035 := (t10028 - target.y)
-  let t10036 := (t10026 - target.x)
-  let t10041 := (((t10033 * t10033) + (t10032 * t10032)) + (t10031 * t10031))
-  let t10046 := (((t10036 * t10036) + (t10035 * t10035)) + (t10034 * t10034))
-  if t10046 < t10041 then
-    ⟨t10026, t10028, t10030⟩
+  let t10076 := (target.x + (angleMod (xyzRot.x - target.x)))
+  let t10078 := (target.y + (angleMod (xyzRot.y - target.y)))
+  let t10080 := (target.z + (angleMod (xyzRot.z - target.z)))
+  let t10089 := (target.x + (angleMod ((((884279719003555 : α) / (281474976710656 : α)) + t10076) - target.x)))
+  let t10091 := (target.y + (angleMod ((((884279719003555 : α) / (281474976710656 : α)) - t10078) - target.y)))
+  let t10093 := (target.z + (angleMod ((((884279719003555 : α) / (281474976710656 : α)) + t10080) - target.z)))
+  let t10094 := (t10080 - target.z)
+  let t10095 := (t10078 - target.y)
+  let t10096 := (t10076 - target.x)
+  let t10097 := (t10093 - target.z)
+  let t10098 := (t10091 - target.y)
+  let t10099 := (t10089 - target.x)
+  let t10104 := (((t10096 * t10096) + (t10095 * t10095)) + (t10094 * t10094))
+  let t10109 := (((t10099 * t10099) + (t10098 * t10098)) + (t10097 * t10097))
+  if t10109 < t10104 then
+    ⟨t10089, t10091, t10093⟩
   else
-    ⟨t10013, t10015, t10017⟩
+    ⟨t10076, t10078, t10080⟩
 
 /-- extracted from the C++ template at T = Sym; 2 path(s) -/
 def Euler.makeNear_XYZr {α : Type} [Add α] [Sub α] [Mul α] [Div α] [LT α] [DecidableLT α] [OfNat α 281474976710656] [OfNat α 884279719003555] (angleMod : α → α) (a : V3 α) (t : V3 α) : ((V3 α) × Int) :=
-  let t10054 := (t.x + (angleMod (a.x - t.x)))
-  let t10056 := (t.y + (angleMod (a.y - t.y)))
-  let t10058 := (t.z + (angleMod (a.z - t.z)))
-  let t10066 := (t.x + (angleMod ((((884279719003555 : α) / (281474976710656 : α)) + t10054) - t.x)))
-  let t10068 := (t.y + (angleMod ((((884279719003555 : α) / (281474976710656 : α)) - t10056) - t.y)))
-  let t10070 := (t.z + (angleMod ((((884279719003555 : α) / (281474976710656 : α)) + t10058) - t.z)))
-  let t10071 := (t10058 - t.z)
-  let t10072 := (t10056 - t.y)
-  let t10073 := (t10054 - t.x)
-  let t10074 := (t10070 - t.z)
-  let t10075 := (t10068 - t.y)
-  let t10076 := (t10066 - t.x)
-  let t10126 := (((t10071 * t10071) + (t10072 * t10072)) + (t10073 * t10073))
-  let t10128 := (((t10074 * t10074) + (t10075 * t10075)) + (t10076 * t10076))
-  if t10128 < t10126 then
-    (⟨t10066, t10068, t10070⟩, (8192 : Int))
+  let t10117 := (t.x + (angleMod (a.x - t.x)))
+  let t10119 := (t.y + (angleMod (a.y - t.y)))
+  let t10121 := (t.z + (angleMod (a.z - t.z)))
+  let t10129 := (t.x + (angleMod ((((884279719003555 : α) / (281474976710656 : α)) + t10117) - t.x)))
+  let t10131 := (t.y + (angleMod ((((884279719003555 : α) / (281474976710656 : α)) - t10119) - t.y)))
+  let t10133 := (t.z + (angleMod ((((884279719003555 : α) / (281474976710656 : α)) + t10121) - t.z)))
+  let t10134 := (t10121 - t.z)
+  let t10135 := (t10119 - t.y)
+  let t10136 := (t10117 - t.x)
+  let t10137 := (t10133 - t.z)
+  let t10138 := (t10131 - t.y)
+  let t10139 := (t10129 - t.x)
+  let t10189 := (((t10134 * t10134) + (t10135 * t10135)) + (t10136 * t10136))
+  let t10191 := (((t10137 * t10137) + (t10138 * t10138)) + (t10139 * t10139))
+  if t10191 < t10189 then
+    (⟨t10129, t10131, t10133⟩, (8192 : Int))
   else
-    (⟨t10054, t10056, t10058⟩, (8192 : Int))
+    (⟨t10117, t10119, t10121⟩, (8192 : Int))
 
 /-- extracted from the C++ template at T = Sym; 2 path(s) -/
 def Euler.nearestRotation_XZYr {α : Type} [Add α] [Sub α] [Mul α] [Div α] [LT α] [DecidableLT α] [OfNat α 281474976710656] [OfNat α 884279719003555] (angleMod : α → α) (xyzRot : V3 α) (target : V3 α) : (V3 α) :=
-  let t10013 := (target.x + (angleMod (xyzRot.x - target.x)))
-  let t10015 := (target.y + (angleMod (xyzRot.y - target.y)))
-  let t10017 := (target.z + (angleMod (xyzRot.z - target.z)))
-  let t10030 := (target.z + (angleMod ((((884279719003555 : α) / (281474976710656 : α)) + t10017) - target.z)))
-  let t10031 := (t10017 - target.z)
-  let t10032 := (t10015 - target.y)
-  let t10033 := (t10013 - target.x)
-  let t10034 := (t10030 - target.z)
-  let t10041 := (((t10033 * t10033) + (t10032 * t10032)) + (t10031 * t10031))
-  let t10092 := (target.y + (angleMod ((((884279719003555 : α) / (281474976710656 : α)) + t10015) - target.y)))
-  let t10096 := (t10092 - target.y)
-  let t10112 := (target.x + (angleMod ((((884279719003555 : α) / (281474976710656 : α)) - t10013) - target.x)))
-  let t10113 := (t10112 - target.x)
-  let t10116 := (((t10113 * t10113) + (t10096 * t10096)) + (t10034 * t10034))
-  if t10116 < t10041 then
-    ⟨t10112, t10092, t10030⟩
+  let t10076 := (target.x + (angleMod (xyzRot.x - target.x)))
+  let t10078 := (target.y + (angleMod (xyzRot.y - target.y)))
+  let t10080 := (target.z + (angleMod (xyzRot.z - target.z)))
+  let t10093 := (target.z + (angleMod ((((884279719003555 : α) / (281474976710656 : α)) + t10080) - target.z)))
+  let t10094 := (t10080 - target.z)
+  let t10095 := (t10078 - target.y)
+  let t10096 := (t10076 - target.x)
+  let t10097 := (t10093 - target.z)
+  let t10104 := (((t10096 * t10096) + (t10095 * t10095)) + (t10094 * t10094))
+  let t10155 := (target.y + (angleMod ((((884279719003555 : α) / (281474976710656 : α)) + t10078) - target.y)))
+  let t10159 := (t10155 - target.y)
+  let t10175 := (target.x + (angleMod ((((884279719003555 : α) / (281474976710656 : α)) - t10076) - target.x)))
+  let t10176 := (t10175 - target.x)
+  let t10179 := (((t10176 * t10176) + (t10159 * t10159)) + (t10097 * t10097))
+  if t10179 < t10104 then
+    ⟨t10175, t10155, t10093⟩
   else
-    ⟨t10013, t10015, t10017⟩
+    ⟨t10076, t10078, t10080⟩
 
 /-- extracted from the C++ template at T = Sym; 2 path(s) -/
 def Euler.makeNear_XZYr {α : Type} [Add α] [Sub α] [Mul α] [Div α] [LT α] [DecidableLT α] [OfNat α 281474976710656] [OfNat α 884279719003555] (angleMod : α → α) (a : V3 α) (t : V3 α) : ((V3 α) × Int) :=
-  let t10054 := (t.x + (angleMod (a.x - t.x)))
-  let t10056 := (t.y + (angleMod (a.y - t.y)))
-  let t10058 := (t.z + (angleMod (a.z - t.z)))
-  let t10066 := (t.x + (angleMod ((((884279719003555 : α) / (281474976710656 : α)) + t10054) - t.x)))
-  let t10068 := (t.y + (angleMod ((((884279719003555 : α) / (281474976710656 : α)) - t10056) - t.y)))
-  let t10070 := (t.z + (angleMod ((((884279719003555 : α) / (281474976710656 : α)) + t10058) - t.z)))
-  let t10071 := (t10058 - t.z)
-  let t10072 := (t10056 - t.y)
-  let t10073 := (t10054 - t.x)
-  let t10074 := (t10070 - t.z)
-  let t10075 := (t10068 - t.y)
-  let t10076 := (t10066 - t.x)
-  let t10122 := (((t10072 * t10072) + (t10071 * t10071)) + (t10073 * t10073))
-  let t10124 := (((t10075 * t10075) + (t10074 * t10074)) + (t10076 * t10076))
-  if t10124 < t10122 then
-    (⟨t10066, t10068, t10070⟩, (8448 : Int))
+  let t10117 := (t.x + (angleMod (a.x - t.x)))
+  let t10119 := (t.y + (angleMod (a.y - t.y)))
+  let t10121 := (t.z + (angleMod (a.z - t.z)))
+  let t10129 := (t.x + (angleMod ((((884279719003555 : α) / (281474976710656 : α)) + t10117) - t.x)))
+  let t10131 := (t.y + (angleMod ((((884279719003555 : α) / (281474976710656 : α)) - t10119) - t.y)))
+  let t10133 := (t.z + (angleMod ((((884279719003555 : α) / (281474976710656 : α)) + t10121) - t.z)))
+  let t10134 := (t10121 - t.z)
+  let t10135 := (t10119 - t.y)
+  let t10136 := (t10117 - t.x)
+  let t10137 := (t10133 - t.z)
+  let t10138 := (t10131 - t.y)
+  let t10139 := (t10129 - t.x)
+  let t10185 := (((t10135 * t10135) + (t10134 * t10134)) + (t10136 * t10136))
+  let t10187 := (((t10138 * t10138) + (t10137 * t10137)) + (t10139 * t10139))
+  if t10187 < t10185 then
+    (⟨t10129, t10131, t10133⟩, (8448 : Int))
   else
-    (⟨t10054, t10056, t10058⟩, (8448 : Int))
+    (⟨t10117, t10119, t10121⟩, (8448 : Int))
 
 /-- extracted from the C++ template at T = Sym; 2 path(s) -/
 def Euler.nearestRotation_YZXr {α : Type} [Add α] [Sub α] [Mul α] [Div α] [LT α] [DecidableLT α] [OfNat α 281474976710656] [OfNat α 884279719003555] (angleMod : α → α) (xyzRot : V3 α) (target : V3 α) : (V3 α) :=
-  let t10013 := (target.x + (angleMod (xyzRot.x - target.x)))
-  let t10015 := (target.y + (angleMod (xyzRot.y - target.y)))
-  let t10017 := (target.z + (angleMod (xyzRot.z - target.z)))
-  let t10030 := (target.z + (angleMod ((((884279719003555 : α) / (281474976710656 : α)) + t10017) - target.z)))
-  let t10031 := (t10017 - target.z)
-  let t10032 := (t10015 - target.y)
-  let t10033 := (t10013 - target.x)
-  let t10034 := (t10030 - target.z)
-  let t10041 := (((t10033 * t10033) + (t10032 * t10032)) + (t10031 * t10031))
-  let t10092 := (target.y + (angleMod ((((884279719003555 : α) / (281474976710656 : α)) + t10015) - target.y)))
-  let t10096 := (t10092 - target.y)
-  let t10112 := (target.x + (angleMod ((((884279719003555 : α) / (281474976710656 : α)) - t10013) - target.x)))
-  let t10113 := (t10112 - target.x)
-  let t10116 := (((t10113 * t10113) + (t10096 * t10096)) + (t10034 * t10034))
-  if t10116 < t10041 then
-    ⟨t10112, t10092, t10030⟩
+  let t10076 := (target.x + (angleMod (xyzRot.x - target.x)))
+  let t10078 := (target.y + (angleMod (xyzRot.y - target.y)))
+  let t10080 := (target.z + (angleMod (xyzRot.z - target.z)))
+  let t10093 := (target.z + (angleMod ((((884279719003555 : α) / (281474976710656 : α)) + t10080) - target.z)))
+  let t10094 := (t10080 - target.z)
+  let t10095 := (t10078 - target.y)
+  let t10096 := (t10076 - target.x)
+  let t10097 := (t10093 - target.z)
+  let t10104 := (((t10096 * t10096) + (t10095 * t10095)) + (t10094 * t10094))
+  let t10155 := (target.y + (angleMod ((((884279719003555 : α) / (281474976710656 : α)) + t10078) - target.y)))
+  let t10159 := (t10155 - target.y)
+  let t10175 := (target.x + (angleMod ((((884279719003555 : α) / (281474976710656 : α)) - t10076) - target.x)))
+  let t10176 := (t10175 - target.x)
+  let t10179 := (((t10176 * t10176) + (t10159 * t10159)) + (t10097 * t10097))
+  if t10179 < t10104 then
+    ⟨t10175, t10155, t10093⟩
   else
-    ⟨t10013, t10015, t10017⟩
+    ⟨t10076, t10078, t10080⟩
 
 /-- extracted from the C++ template at T = Sym; 2 path(s) -/
 def Euler.makeNear_YZXr {α : Type} [Add α] [Sub α] [Mul α] [Div α] [LT α] [DecidableLT α] [OfNat α 281474976710656] [OfNat α 884279719003555] (angleMod : α → α) (a : V3 α) (t : V3 α) : ((V3 α) × Int) :=
-  let t10054 := (t.x + (angleMod (a.x - t.x)))
-  let t10056 := (t.y + (angleMod (a.y - t.y)))
-  let t10058 := (t.z + (angleMod (a.z - t.z)))
-  let t10066 := (t.x + (angleMod ((((884279719003555 : α) / (281474976710656 : α)) + t10054) - t.x)))
-  let t10068 := (t.y + (angleMod ((((884279719003555 : α) / (281474976710656 : α)) - t10056) - t.y)))
-  let t10070 := (t.z + (angleMod ((((884279719003555 : α) / (281474976710656 : α)) + t10058) - t.z)))
-  let t10071 := (t10058 - t.z)
-  let t10072 := (t10056 - t.y)
-  let t10073 := (t10054 - t.x)
-  let t10074 := (t10070 - t.z)
-  let t10075 := (t10068 - t.y)
-  let t10076 := (t10066 - t.x)
-  let t10118 := (((t10072 * t10072) + (t10073 * t10073)) + (t10071 * t10071))
-  let t10120 := (((t10075 * t10075) + (t10076 * t10076)) + (t10074 * t10074))
-  if t10120 < t10118 then
-    (⟨t10066, t10068, t10070⟩, (4096 : Int))
+  let t10117 := (t.x + (angleMod (a.x - t.x)))
+  let t10119 := (t.y + (angleMod (a.y - t.y)))
+  let t10121 := (t.z + (angleMod (a.z - t.z)))
+  let t10129 := (t.x + (angleMod ((((884279719003555 : α) / (281474976710656 : α)) + t10117) - t.x)))
+  let t10131 := (t.y + (angleMod ((((884279719003555 : α) / (281474976710656 : α)) - t10119) - t.y)))
+  let t10133 := (t.z + (angleMod ((((884279719003555 : α) / (281474976710656 : α)) + t10121) - t.z)))
+  let t10134 := (t10121 - t.z)
+  let t10135 := (t10119 - t.y)
+  let t10136 := (t10117 - t.x)
+  let t10137 := (t10133 - t.z)
+  let t10138 := (t10131 - t.y)
+  let t10139 := (t10129 - t.x)
+  let t10181 := (((t10135 * t10135) + (t10136 * t10136)) + (t10134 * t10134))
+  let t10183 := (((t10138 * t10138) + (t10139 * t10139)) + (t10137 * t10137))
+  if t10183 < t10181 then
+    (⟨t10129, t10131, t10133⟩, (4096 : Int))
   else
-    (⟨t10054, t10056, t10058⟩, (4096 : Int))
+    (⟨t10117, t10119, t10121⟩, (4096 : Int))
 
 /-- extracted from the C++ template at T = Sym; 2 path(s) -/
 def Euler.nearestRotation_YXZr {α : Type} [Add α] [Sub α] [Mul α] [Div α] [LT α] [DecidableLT α] [OfNat α 281474976710656] [OfNat α 884279719003555] (angleMod : α → α) (xyzRot : V3 α) (target : V3 α) : (V3 α) :=
-  let t10013 := (target.x + (angleMod (xyzRot.x - target.x)))
-  let t10015 := (target.y + (angleMod (xyzRot.y - target.y)))
-  let t10017 := (target.z + (angleMod (xyzRot.z - target.z)))
-  let t10026 := (target.x + (angleMod ((((884279719003555 : α) / (281474976710656 : α)) + t10013) - target.x)))
-  let t10031 := (t10017 - target.z)
-  let t10032 := (t10015 - target.y)
-  let t10033 := (t10013 - target.x)
-  let t10036 := (t10026 - target.x)
-  let t10041 := (((t10033 * t10033) + (t10032 * t10032)) + (t10031 * t10031))
-  let t10092 := (target.y + (angleMod ((((884279719003555 : α) / (281474976710656 : α)) + t10015) - target.y)))
-  let t10094 := (target.z + (angleMod ((((884279719003555 : α) / (281474976710656 : α)) - t10017) - target.z)))
-  let t10095 := (t10094 - target.z)
-  let t10096 := (t10092 - target.y)
-  let t10100 := (((t10036 * t10036) + (t10096 * t10096)) + (t10095 * t10095))
-  if t10100 < t10041 then
-    ⟨t10026, t10092, t10094⟩
+  let t10076 := (target.x + (angleMod (xyzRot.x - target.x)))
+  let t10078 := (target.y + (angleMod (xyzRot.y - target.y)))
+  let t10080 := (target.z + (angleMod (xyzRot.z - target.z)))
+  let t10089 := (target.x + (angleMod ((((884279719003555 : α) / (281474976710656 : α)) + t10076) - target.x)))
+  let t10094 := (t10080 - target.z)
+  let t10095 := (t10078 - target.y)
+  let t10096 := (t10076 - target.x)
+  let t10099 := (t10089 - target.x)
+  let t10104 := (((t10096 * t10096) + (t10095 * t10095)) + (t10094 * t10094))
+  let t10155 := (target.y + (angleMod ((((884279719003555 : α) / (281474976710656 : α)) + t10078) - target.y)))
+  let t10157 := (target.z + (angleMod ((((884279719003555 : α) / (281474976710656 : α)) - t10080) - target.z)))
+  let t10158 := (t10157 - target.z)
+  let t10159 := (t10155 - target.y)
+  let t10163 := (((t10099 * t10099) + (t10159 * t10159)) + (t10158 * t10158))
+  if t10163 < t10104 then
+    ⟨t10089, t10155, t10157⟩
   else
-    ⟨t10013, t10015, t10017⟩
+    ⟨t10076, t10078, t10080⟩
 
 /-- extracted from the C++ template at T = Sym; 2 path(s) -/
 def Euler.makeNear_YXZr {α : Type} [Add α] [Sub α] [Mul α] [Div α] [LT α] [DecidableLT α] [OfNat α 281474976710656] [OfNat α 884279719003555] (angleMod : α → α) (a : V3 α) (t : V3 α) : ((V3 α) × Int) :=
-  let t10054 := (t.x + (angleMod (a.x - t.x)))
-  let t10056 := (t.y + (angleMod (a.y - t.y)))
-  let t10058 := (t.z + (angleMod (a.z - t.z)))
-  let t10066 := (t.x + (angleMod ((((884279719003555 : α) / (281474976710656 : α)) + t10054) - t.x)))
-  let t10068 := (t.y + (angleMod ((((884279719003555 : α) / (281474976710656 : α)) - t10056) - t.y)))
-  let t10070 := (t.z + (angleMod ((((884279719003555 : α) / (281474976710656 : α)) + t10058) - t.z)))
-  let t10071 := (t10058 - t.z)
-  let t10072 := (t10056 - t.y)
-  let t10073 := (t10054 - t.x)
-  let t10074 := (t10070 - t.z)
-  let t10075 := (t10068 - t.y)
-  let t10076 := (t10066 - t.x)
-  let t10106 := (((t10071 * t10071) + (t10073 * t10073)) + (t10072 * t10072))
-  let t10108 := (((t10074 * t10074) + (t10076 * t10076)) + (t10075 * t10075))
-  if t10108 < t10106 then
-    (⟨t10066, t10068, t10070⟩, (4352 : Int))
+  let t10117 := (t.x + (angleMod (a.x - t.x)))
+  let t10119 := (t.y + (angleMod (a.y - t.y)))
+  let t10121 := (t.z + (angleMod (a.z - t.z)))
+  let t10129 := (t.x + (angleMod ((((884279719003555 : α) / (281474976710656 : α)) + t10117) - t.x)))
+  let t10131 := (t.y + (angleMod ((((884279719003555 : α) / (281474976710656 : α)) - t10119) - t.y)))
+  let t10133 := (t.z + (angleMod ((((884279719003555 : α) / (281474976710656 : α)) + t10121) - t.z)))
+  let t10134 := (t10121 - t.z)
+  let t10135 := (t10119 - t.y)
+  let t10136 := (t10117 - t.x)
+  let t10137 := (t10133 - t.z)
+  let t10138 := (t10131 - t.y)
+  let t10139 := (t10129 - t.x)
+  let t10169 := (((t10134 * t10134) + (t10136 * t10136)) + (t10135 * t10135))
+  let t10171 := (((t10137 * t10137) + (t10139 * t10139)) + (t10138 * t10138))
+  if t10171 < t10169 then
+    (⟨t10129, t10131, t10133⟩, (4352 : Int))
   else
-    (⟨t10054, t10056, t10058⟩, (4352 : Int))
+    (⟨t10117, t10119, t10121⟩, (4352 : Int))
 
 /-- extracted from the C++ template at T = Sym; 2 path(s) -/
 def Euler.nearestRotation_ZXYr {α : Type} [Add α] [Sub α] [Mul α] [Div α] [LT α] [DecidableLT α] [OfNat α 281474976710656] [OfNat α 884279719003555] (angleMod : α → α) (xyzRot : V3 α) (target : V3 α) : (V3 α) :=
-  let t10013 := (target.x + (angleMod (xyzRot.x - target.x)))
-  let t10015 := (target.y + (angleMod (xyzRot.y - target.y)))
-  let t10017 := (target.z + (angleMod (xyzRot.z - target.z)))
-  let t10026 := (target.x + (angleMod ((((884279719003555 : α) / (281474976710656 : α)) + t10013) - target.x)))
-  let t10031 := (t10017 - target.z)
-  let t10032 := (t10015 - target.y)
-  let t10033 := (t10013 - target.x)
-  let t10036 := (t10026 - target.x)
-  let t10041 := (((t10033 * t10033) + (t10032 * t10032)) + (t10031 * t10031))
-  let t10092 := (target.y + (angleMod ((((884279719003555 : α) / (281474976710656 : α)) + t10015) - target.y)))
-  let t10094 := (target.z + (angleMod ((((884279719003555 : α) / (281474976710656 : α)) - t10017) - target.z)))
-  let t10095 := (t10094 - target.z)
-  let t10096 := (t10092 - target.y)
-  let t10100 := (((t10036 * t10036) + (t10096 * t10096)) + (t10095 * t10095))
-  if t10100 < t10041 then
-    ⟨t10026, t10092, t10094⟩
+  let t10076 := (target.x + (angleMod (xyzRot.x - target.x)))
+  let t10078 := (target.y + (angleMod (xyzRot.y - target.y)))
+  let t10080 := (target.z + (angleMod (xyzRot.z - target.z)))
+  let t10089 := (target.x + (angleMod ((((884279719003555 : α) / (281474976710656 : α)) + t10076) - target.x)))
+  let t10094 := (t10080 - target.z)
+  let t10095 := (t10078 - target.y)
+  let t10096 := (t10076 - target.x)
+  let t10099 := (t10089 - target.x)
+  let t10104 := (((t10096 * t10096) + (t10095 * t10095)) + (t10094 * t10094))
+  let t10155 := (target.y + (angleMod ((((884279719003555 : α) / (281474976710656 : α)) + t10078) - target.y)))
+  let t10157 := (target.z + (angleMod ((((884279719003555 : α) / (281474976710656 : α)) - t10080) - target.z)))
+  let t10158 := (t10157 - target.z)
+  let t10159 := (t10155 - target.y)
+  let t10163 := (((t10099 * t10099) + (t10159 * t10159)) + (t10158 * t10158))
+  if t10163 < t10104 then
+    ⟨t10089, t10155, t10157⟩
   else
-    ⟨t10013, t10015, t10017⟩
+    ⟨t10076, t10078, t10080⟩
 
 /-- extracted from the C++ template at T = Sym; 2 path(s) -/
 def Euler.makeNear_ZXYr {α : Type} [Add α] [Sub α] [Mul α] [Div α] [LT α] [DecidableLT α] [OfNat α 281474976710656] [OfNat α 884279719003555] (angleMod : α → α) (a : V3 α) (t : V3 α) : ((V3 α) × Int) :=
-  let t10054 := (t.x + (angleMod (a.x - t.x)))
-  let t10056 := (t.y + (angleMod (a.y - t.y)))
-  let t10058 := (t.z + (angleMod (a.z - t.z)))
-  let t10066 := (t.x + (angleMod ((((884279719003555 : α) / (281474976710656 : α)) + t10054) - t.x)))
-  let t10068 := (t.y + (angleMod ((((884279719003555 : α) / (281474976710656 : α)) - t10056) - t.y)))
-  let t10070 := (t.z + (angleMod ((((884279719003555 : α) / (281474976710656 : α)) + t10058) - t.z)))
-  let t10071 := (t10058 - t.z)
-  let t10072 := (t10056 - t.y)
-  let t10073 := (t10054 - t.x)
-  let t10074 := (t10070 - t.z)
-  let t10075 := (t10068 - t.y)
-  let t10076 := (t10066 - t.x)
-  let t10102 := (((t10073 * t10073) + (t10071 * t10071)) + (t10072 * t10072))
-  let t10104 := (((t10076 * t10076) + (t10074 * t10074)) + (t10075 * t10075))
-  if t10104 < t10102 then
-    (⟨t10066, t10068, t10070⟩, (0 : Int))
+  let t10117 := (t.x + (angleMod (a.x - t.x)))
+  let t10119 := (t.y + (angleMod (a.y - t.y)))
+  let t10121 := (t.z + (angleMod (a.z - t.z)))
+  let t10129 := (t.x + (angleMod ((((884279719003555 : α) / (281474976710656 : α)) + t10117) - t.x)))
+  let t10131 := (t.y + (angleMod ((((884279719003555 : α) / (281474976710656 : α)) - t10119) - t.y)))
+  let t10133 := (t.z + (angleMod ((((884279719003555 : α) / (281474976710656 : α)) + t10121) - t.z)))
+  let t10134 := (t10121 - t.z)
+  let t10135 := (t10119 - t.y)
+  let t10136 := (t10117 - t.x)
+  let t10137 := (t10133 - t.z)
+  let t10138 := (t10131 - t.y)
+  let t10139 := (t10129 - t.x)
+  let t10165 := (((t10136 * t10136) + (t10134 * t10134)) + (t10135 * t10135))
+  let t10167 := (((t10139 * t10139) + (t10137 * t10137)) + (t10138 * t10138))
+  if t10167 < t10165 then
+    (⟨t10129, t10131, t10133⟩, (0 : Int))
   else
-    (⟨t10054, t10056, t10058⟩, (0 : Int))
+    (⟨t10117, t10119, t10121⟩, (0 : Int))
 
 /-- extracted from the C++ template at T = Sym; 2 path(s) -/
 def Euler.nearestRotation_ZYXr {α : Type} [Add α] [Sub α] [Mul α] [Div α] [LT α] [DecidableLT α] [OfNat α 281474976710656] [OfNat α 884279719003555] (angleMod : α → α) (xyzRot : V3 α) (target : V3 α) : (V3 α) :=
-  let t10013 := (target.x + (angleMod (xyzRot.x - target.x)))
-  let t10015 := (target.y + (angleMod (xyzRot.y - target.y)))
-  let t10017 := (target.z + (angleMod (xyzRot.z - target.z)))
-  let t10026 := (target.x + (angleMod ((((884279719003555 : α) / (281474976710656 : α)) + t10013) - target.x)))
-  let t10028 := (target.y + (angleMod ((((884279719003555 : α) / (281474976710656 : α)) - t10015) - target.y)))
-  let t10030 := (target.z + (angleMod ((((884279719003555 : α) / (281474976710656 : α)) + t10017) - target.z)))
-  let t10031 := (t10017 - target.z)
-  let t10032 := (t10015 - target.y)
-  let t10033 := (t10013 - target.x)
-  let t10034 := (t10030 - target.z)
-  let t10035 := (t10028 - target.y)
-  let t10036 := (t10026 - target.x)
-  let t10041 := (((t10033 * t10033) + (t10032 * t10032)) + (t10031 * t10031))
-  let t10046 := (((t10036 * t10036) + (t10035 * t10035)) + (t10034 * t10034))
-  if t10046 < t10041 then
-    ⟨t10026, t10028, t10030⟩
+  let t10076 := (target.x + (angleMod (xyzRot.x - target.x)))
+  let t10078 := (target.y + (angleMod (xyzRot.y - target.y)))
+  let t10080 := (target.z + (angleMod (xyzRot.z - target.z)))
+  let t10089 := (target.x + (angleMod ((((884279719003555 : α) / (281474976710656 : α)) + t10076) - target.x)))
+  let t10091 := (target.y + (angleMod ((((884279719003555 : α) / (281474976710656 : α)) - t10078) - target.y)))
+  let t10093 := (target.z + (angleMod ((((884279719003555 : α) / (281474976710656 : α)) + t10080) - target.z)))
+  let t10094 := (t10080 - target.z)
+  let t10095 := (t10078 - target.y)
+  let t10096 := (t10076 - target.x)
+  let t10097 := (t10093 - target.z)
+  let t10098 := (t10091 - target.y)
+  let t10099 := (t10089 - target.x)
+  let t10104 := (((t10096 * t10096) + (t10095 * t10095)) + (t10094 * t10094))
+  let t10109 := (((t10099 * t10099) + (t10098 * t10098)) + (t10097 * t10097))
+  if t10109 < t10104 then
+    ⟨t10089, t10091, t10093⟩
   else
-    ⟨t10013, t10015, t10017⟩
+    ⟨t10076, t10078, t10080⟩
 
 /-- extracted from the C++ template at T = Sym; 2 path(s) -/
 def Euler.makeNear_ZYXr {α : Type} [Add α] [Sub α] [Mul α] [Div α] [LT α] [DecidableLT α] [OfNat α 281474976710656] [OfNat α 884279719003555] (angleMod : α → α) (a : V3 α) (t : V3 α) : ((V3 α) × Int) :=
-  let t10054 := (t.x + (angleMod (a.x - t.x)))
-  let t10056 := (t.y + (angleMod (a.y - t.y)))
-  let t10058 := (t.z + (angleMod (a.z - t.z)))
-  let t10066 := (t.x + (angleMod ((((884279719003555 : α) / (281474976710656 : α)) + t10054) - t.x)))
-  let t10068 := (t.y + (angleMod ((((884279719003555 : α) / (281474976710656 : α)) - t10056) - t.y)))
-  let t10070 := (t.z + (angleMod ((((884279719003555 : α) / (281474976710656 : α)) + t10058) - t.z)))
-  let t10071 := (t10058 - t.z)
-  let t10072 := (t10056 - t.y)
-  let t10073 := (t10054 - t.x)
-  let t10074 := (t10070 - t.z)
-  let t10075 := (t10068 - t.y)
-  let t10076 := (t10066 - t.x)
-  let t10081 := (((t10073 * t10073) + (t10072 * t10072)) + (t10071 * t10071))
-  let t10086 := (((t10076 * t10076) + (t10075 * t10075)) + (t10074 * t10074))
-  if t10086 < t10081 then
-    (⟨t10066, t10068, t10070⟩, (256 : Int))
+  let t10117 := (t.x + (angleMod (a.x - t.x)))
+  let t10119 := (t.y + (angleMod (a.y - t.y)))
+  let t10121 := (t.z + (angleMod (a.z - t.z)))
+  let t10129 := (t.x + (angleMod ((((884279719003555 : α) / (281474976710656 : α)) + t10117) - t.x)))
+  let t10131 := (t.y + (angleMod ((((884279719003555 : α) / (281474976710656 : α)) - t10119) - t.y)))
+  let t10133 := (t.z + (angleMod ((((884279719003555 : α) / (281474976710656 : α)) + t10121) - t.z)))
+  let t10134 := (t10121 - t.z)
+  let t10135 := (t10119 - t.y)
+  let t10136 := (t10117 - t.x)
+  let t10137 := (t10133 - t.z)
+  let t10138 := (t10131 - t.y)
+  let t10139 := (t10129 - t.x)
+  let t10144 := (((t10136 * t10136) + (t10135 * t10135)) + (t10134 * t10134))
+  let t10149 := (((t10139 * t10139) + (t10138 * t10138)) + (t10137 * t10137))
+  if t10149 < t10144 then
+    (⟨t10129, t10131, t10133⟩, (256 : Int))
   else
-    (⟨t10054, t10056, t10058⟩, (256 : Int))
+    (⟨t10117, t10119, t10121⟩, (256 : Int))
 
 /-- extracted from the C++ template at T = Sym; 2 path(s) -/
 def Euler.nearestRotation_XZXr {α : Type} [Add α] [Sub α] [Mul α] [Div α] [LT α] [DecidableLT α] [OfNat α 281474976710656] [OfNat α 884279719003555] (angleMod : α → α) (xyzRot : V3 α) (target : V3 α) : (V3 α) :=
-  let t10013 := (target.x + (angleMod (xyzRot.x - target.x)))
-  let t10015 := (target.y + (angleMod (xyzRot.y - target.y)))
-  let t10017 := (target.z + (angleMod (xyzRot.z - target.z)))
-  let t10030 := (target.z + (angleMod ((((884279719003555 : α) / (281474976710656 : α)) + t10017) - target.z)))
-  let t10031 := (t10017 - target.z)
-  let t10032 := (t10015 - target.y)
-  let t10033 := (t10013 - target.x)
-  let t10034 := (t10030 - target.z)
-  let t10041 := (((t10033 * t10033) + (t10032 * t10032)) + (t10031 * t10031))
-  let t10092 := (target.y + (angleMod ((((884279719003555 : α) / (281474976710656 : α)) + t10015) - target.y)))
-  let t10096 := (t10092 - target.y)
-  let t10112 := (target.x + (angleMod ((((884279719003555 : α) / (281474976710656 : α)) - t10013) - target.x)))
-  let t10113 := (t10112 - target.x)
-  let t10116 := (((t10113 * t10113) + (t10096 * t10096)) + (t10034 * t10034))
-  if t10116 < t10041 then
-    ⟨t10112, t10092, t10030⟩
+  let t10076 := (target.x + (angleMod (xyzRot.x - target.x)))
+  let t10078 := (target.y + (angleMod (xyzRot.y - target.y)))
+  let t10080 := (target.z + (angleMod (xyzRot.z - target.z)))
+  let t10093 := (target.z + (angleMod ((((884279719003555 : α) / (281474976710656 : α)) + t10080) - target.z)))
+  let t10094 := (t10080 - target.z)
+  let t10095 := (t10078 - target.y)
+  let t10096 := (t10076 - target.x)
+  let t10097 := (t10093 - target.z)
+  let t10104 := (((t10096 * t10096) + (t10095 * t10095)) + (t10094 * t10094))
+  let t10155 := (target.y + (angleMod ((((884279719003555 : α) / (281474976710656 : α)) + t10078) - target.y)))
+  let t10159 := (t10155 - target.y)
+  let t10175 := (target.x + (angleMod ((((884279719003555 : α) / (281474976710656 : α)) - t10076) - target.x)))
+  let t10176 := (t10175 - target.x)
+  let t10179 := (((t10176 * t10176) + (t10159 * t10159)) + (t10097 * t10097))
+  if t10179 < t10104 then
+    ⟨t10175, t10155, t10093⟩
   else
-    ⟨t10013, t10015, t10017⟩
+    ⟨t10076, t10078, t10080⟩
 
 /-- extracted from the C++ template at T = Sym; 2 path(s) -/
 def Euler.makeNear_XZXr {α : Type} [Add α] [Sub α] [Mul α] [Div α] [LT α] [DecidableLT α] [OfNat α 281474976710656] [OfNat α 884279719003555] (angleMod : α → α) (a : V3 α) (t : V3 α) : ((V3 α) × Int) :=
-  let t10054 := (t.x + (angleMod (a.x - t.x)))
-  let t10056 := (t.y + (angleMod (a.y - t.y)))
-  let t10058 := (t.z + (angleMod (a.z - t.z)))
-  let t10066 := (t.x + (angleMod ((((884279719003555 : α) / (281474976710656 : α)) + t10054) - t.x)))
-  let t10068 := (t.y + (angleMod ((((884279719003555 : α) / (281474976710656 : α)) - t10056) - t.y)))
-  let t10070 := (t.z + (angleMod ((((884279719003555 : α) / (281474976710656 : α)) + t10058) - t.z)))
-  let t10071 := (t10058 - t.z)
-  let t10072 := (t10056 - t.y)
-  let t10073 := (t10054 - t.x)
-  let t10074 := (t10070 - t.z)
-  let t10075 := (t10068 - t.y)
-  let t10076 := (t10066 - t.x)
-  let t10122 := (((t10072 * t10072) + (t10071 * t10071)) + (t10073 * t10073))
-  let t10124 := (((t10075 * t10075) + (t10074 * t10074)) + (t10076 * t10076))
-  if t10124 < t10122 then
-    (⟨t10066, t10068, t10070⟩, (8464 : Int))
+  let t10117 := (t.x + (angleMod (a.x - t.x)))
+  let t10119 := (t.y + (angleMod (a.y - t.y)))
+  let t10121 := (t.z + (angleMod (a.z - t.z)))
+  let t10129 := (t.x + (angleMod ((((884279719003555 : α) / (281474976710656 : α)) + t10117) - t.x)))
+  let t10131 := (t.y + (angleMod ((((884279719003555 : α) / (281474976710656 : α)) - t10119) - t.y)))
+  let t10133 := (t.z + (angleMod ((((884279719003555 : α) / (281474976710656 : α)) + t10121) - t.z)))
+  let t10134 := (t10121 - t.z)
+  let t10135 := (t10119 - t.y)
+  let t10136 := (t10117 - t.x)
+  let t10137 := (t10133 - t.z)
+  let t10138 := (t10131 - t.y)
+  let t10139 := (t10129 - t.x)
+  let t10185 := (((t10135 * t10135) + (t10134 * t10134)) + (t10136 * t10136))
+  let t10187 := (((t10138 * t10138) + (t10137 * t10137)) + (t10139 * t10139))
+  if t10187 < t10185 then
+    (⟨t10129, t10131, t10133⟩, (8464 : Int))
   else
-    (⟨t10054, t10056, t10058⟩, (8464 : Int))
+    (⟨t10117, t10119, t10121⟩, (8464 : Int))
 
 /-- extracted from the C++ template at T = Sym; 2 path(s) -/
 def Euler.nearestRotation_XYXr {α : Type} [Add α] [Sub α] [Mul α] [Div α] [LT α] [DecidableLT α] [OfNat α 281474976710656] [OfNat α 884279719003555] (angleMod : α → α) (xyzRot : V3 α) (target : V3 α) : (V3 α) :=
-  let t10013 := (target.x + (angleMod (xyzRot.x - target.x)))
-  let t10015 := (target.y + (angleMod (xyzRot.y - target.y)))
-  let t10017 := (target.z + (angleMod (xyzRot.z - target.z)))
-  let t10026 := (target.x + (angleMod ((((884279719003555 : α) / (281474976710656 : α)) + t10013) - target.x)))
-  let t10028 := (target.y + (angleMod ((((884279719003555 : α) / (281474976710656 : α)) - t10015) - target.y)))
-  let t10030 := (target.z + (angleMod ((((884279719003555 : α) / (281474976710656 : α)) + t10017) - target.z)))
-  let t10031 := (t10017 - target.z)
-  let t10032 := (t10015 - target.y)
-  let t10033 := (t10013 - target.x)
-  let t10034 := (t10030 - target.z)
-  let t10035 := (t10028 - target.y)
-  let t10036 := (t10026 - target.x)
-  let t10041 := (((t10033 * t10033) + (t10032 * t10032)) + (t10031 * t10031))
-  let t10046 := (((t10036 * t10036) + (t10035 * t10035)) + (t10034 * t10034))
-  if t10046 < t10041 then
-    ⟨t10026, t10028, t10030⟩
+  let t10076 := (target.x + (angleMod (xyzRot.x - target.x)))
+  let t10078 := (target.y + (angleMod (xyzRot.y - target.y)))
+  let t10080 := (target.z + (angleMod (xyzRot.z - target.z)))
+  let t10089 := (target.x + (angleMod ((((884279719003555 : α) / (281474976710656 : α)) + t10076) - target.x)))
+  let t10091 := (target.y + (angleMod ((((884279719003555 : α) / (281474976710656 : α)) - t10078) - target.y)))
+  let t10093 := (target.z + (angleMod ((((884279719003555 : α) / (281474976710656 : α)) + t10080) - target.z)))
+  let t10094 := (t10080 - target.z)
+  let t10095 := (t10078 - target.y)
+  let t10096 := (t10076 - target.x)
+  let t10097 := (t10093 - target.z)
+  let t10098 := (t10091 - target.y)
+  let t10099 := (t10089 - target.x)
+  let t10104 := (((t10096 * t10096) + (t10095 * t10095)) + (t10094 * t10094))
+  let t10109 := (((t10099 * t10099) + (t10098 * t10098)) + (t10097 * t10097))
+  if t10109 < t10104 then
+    ⟨t10089, t10091, t10093⟩
   else
-    ⟨t10013, t10015, t10017⟩
+    ⟨t10076, t10078, t10080⟩
 
 /-- extracted from the C++ template at T = Sym; 2 path(s) -/
 def Euler.makeNear_XYXr {α : Type} [Add α] [Sub α] [Mul α] [Div α] [LT α] [DecidableLT α] [OfNat α 281474976710656] [OfNat α 884279719003555] (angleMod : α → α) (a : V3 α) (t : V3 α) : ((V3 α) × Int) :=
-  let t10054 := (t.x + (angleMod (a.x - t.x)))
-  let t10056 := (t.y + (angleMod (a.y - t.y)))
-  let t10058 := (t.z + (angleMod (a.z - t.z)))
-  let t10066 := (t.x + (angleMod ((((884279719003555 : α) / (281474976710656 : α)) + t10054) - t.x)))
-  let t10068 := (t.y + (angleMod ((((884279719003555 : α) / (281474976710656 : α)) - t10056) - t.y)))
-  let t10070 := (t.z + (angleMod ((((884279719003555 : α) / (281474976710656 : α)) + t10058) - t.z)))
-  let t10071 := (t10058 - t.z)
-  let t10072 := (t10056 - t.y)
-  let t10073 := (t10054 - t.x)
-  let t10074 := (t10070 - t.z)
-  let t10075 := (t10068 - t.y)
-  let t10076 := (t10066 - t.x)
-  let t10126 := (((t10071 * t10071) + (t10072 * t10072)) + (t10073 * t10073))
-  let t10128 := (((t10074 * t10074) + (t10075 * t10075)) + (t10076 * t10076))
-  if t10128 < t10126 then
-    (⟨t10066, t10068, t10070⟩, (8208 : Int))
+  let t10117 := (t.x + (angleMod (a.x - t.x)))
+  let t10119 := (t.y + (angleMod (a.y - t.y)))
+  let t10121 := (t.z + (angleMod (a.z - t.z)))
+  let t10129 := (t.x + (angleMod ((((884279719003555 : α) / (281474976710656 : α)) + t10117) - t.x)))
+  let t10131 := (t.y + (angleMod ((((884279719003555 : α) / (281474976710656 : α)) - t10119) - t.y)))
+  let t10133 := (t.z + (angleMod ((((884279719003555 : α) / (281474976710656 : α)) + t10121) - t.z)))
+  let t10134 := (t10121 - t.z)
+  let t10135 := (t10119 - t.y)
+  let t10136 := (t10117 - t.x)
+  let t10137 := (t10133 - t.z)
+  let t10138 := (t10131 - t.y)
+  let t10139 := (t10129 - t.x)
+  let t10189 := (((t10134 * t10134) + (t10135 * t10135)) + (t10136 * t10136))
+  let t10191 := (((t10137 * t10137) + (t10138 * t10138)) + (t10139 * t10139))
+  if t10191 < t10189 then
+    (⟨t10129, t10131, t10133⟩, (8208 : Int))
   else
-    (⟨t10054, t10056, t10058⟩, (8208 : Int))
+    (⟨t10117, t10119, t10121⟩, (8208 : Int))
 
 /-- extracted from the C++ template at T = Sym; 2 path(s) -/
 def Euler.nearestRotation_YXYr {α : Type} [Add α] [Sub α] [Mul α] [Div α] [LT α] [DecidableLT α] [OfNat α 281474976710656] [OfNat α 884279719003555] (angleMod : α → α) (xyzRot : V3 α) (target : V3 α) : (V3 α) :=
-  let t10013 := (target.x + (angleMod (xyzRot.x - target.x)))
-  let t10015 := (target.y + (angleMod (xyzRot.y - target.y)))
-  let t10017 := (target.z + (angleMod (xyzRot.z - target.z)))
-  let t10026 := (target.x + (angleMod ((((884279719003555 : α) / (281474976710656 : α)) + t10013) - target.x)))
-  let t10031 := (t10017 - target.z)
-  let t10032 := (t10015 - target.y)
-  let t10033 := (t10013 - target.x)
-  let t10036 := (t10026 - target.x)
-  let t10041 := (((t10033 * t10033) + (t10032 * t10032)) + (t10031 * t10031))
-  let t10092 := (target.y + (angleMod ((((884279719003555 : α) / (281474976710656 : α)) + t10015) - target.y)))
-  let t10094 := (target.z + (angleMod ((((884279719003555 : α) / (281474976710656 : α)) - t10017) - target.z)))
-  let t10095 := (t10094 - target.z)
-  let t10096 := (t10092 - target.y)
-  let t10100 := (((t10036 * t10036) + (t10096 * t10096)) + (t10095 * t10095))
-  if t10100 < t10041 then
-    ⟨t10026, t10092, t10094⟩
+  let t10076 := (target.x + (angleMod (xyzRot.x - target.x)))
+  let t10078 := (target.y + (angleMod (xyzRot.y - target.y)))
+  let t10080 := (target.z + (angleMod (xyzRot.z - target.z)))
+  let t10089 := (target.x + (angleMod ((((884279719003555 : α) / (281474976710656 : α)) + t10076) - target.x)))
+  let t10094 := (t10080 - target.z)
+  let t10095 := (t10078 - target.y)
+  let t10096 := (t10076 - target.x)
+  let t10099 := (t10089 - target.x)
+  let t10104 := (((t10096 * t10096) + (t10095 * t10095)) + (t10094 * t10094))
+  let t10155 := (target.y + (angleMod ((((884279719003555 : α) / (281474976710656 : α)) + t10078) - target.y)))
+  let t10157 := (target.z + (angleMod ((((884279719003555 : α) / (281474976710656 : α)) - t10080) - target.z)))
+  let t10158 := (t10157 - target.z)
+  let t10159 := (t10155 - target.y)
+  let t10163 := (((t10099 * t10099) + (t10159 * t10159)) + (t10158 * t10158))
+  if t10163 < t10104 then
+    ⟨t10089, t10155, t10157⟩
   else
-    ⟨t10013, t10015, t10017⟩
+    ⟨t10076, t10078, t10080⟩
 
 /-- extracted from the C++ template at T = Sym; 2 path(s) -/
 def Euler.makeNear_YXYr {α : Type} [Add α] [Sub α] [Mul α] [Div α] [LT α] [DecidableLT α] [OfNat α 281474976710656] [OfNat α 884279719003555] (angleMod : α → α) (a : V3 α) (t : V3 α) : ((V3 α) × Int) :=
-  let t10054 := (t.x + (angleMod (a.x - t.x)))
-  let t10056 := (t.y + (angleMod (a.y - t.y)))
-  let t10058 := (t.z + (angleMod (a.z - t.z)))
-  let t10066 := (t.x + (angleMod ((((884279719003555 : α) / (281474976710656 : α)) + t10054) - t.x)))
-  let t10068 := (t.y + (angleMod ((((884279719003555 : α) / (281474976710656 : α)) - t10056) - t.y)))
-  let t10070 := (t.z + (angleMod ((((884279719003555 : α) / (281474976710656 : α)) + t10058) - t.z)))
-  let t10071 := (t10058 - t.z)
-  let t10072 := (t10056 - t.y)
-  let t10073 := (t10054 - t.x)
-  let t10074 := (t10070 - t.z)
-  let t10075 := (t10068 - t.y)
-  let t10076 := (t10066 - t.x)
-  let t10106 := (((t10071 * t10071) + (t10073 * t10073)) + (t10072 * t10072))
-  let t10108 := (((t10074 * t10074) + (t10076 * t10076)) + (t10075 * t10075))
-  if t10108 < t10106 then
-    (⟨t10066, t10068, t10070⟩, (4368 : Int))
+  let t10117 := (t.x + (angleMod (a.x - t.x)))
+  let t10119 := (t.y + (angleMod (a.y - t.y)))
+  let t10121 := (t.z + (angleMod (a.z - t.z)))
+  let t10129 := (t.x + (angleMod ((((884279719003555 : α) / (281474976710656 : α)) + t10117) - t.x)))
+  let t10131 := (t.y + (angleMod ((((884279719003555 : α) / (281474976710656 : α)) - t10119) - t.y)))
+  let t10133 := (t.z + (angleMod ((((884279719003555 : α) / (281474976710656 : α)) + t10121) - t.z)))
+  let t10134 := (t10121 - t.z)
+  let t10135 := (t10119 - t.y)
+  let t10136 := (t10117 - t.x)
+  let t10137 := (t10133 - t.z)
+  let t10138 := (t10131 - t.y)
+  let t10139 := (t10129 - t.x)
+  let t10169 := (((t10134 * t10134) + (t10136 * t10136)) + (t10135 * t10135))
+  let t10171 := (((t10137 * t10137) + (t10139 * t10139)) + (t10138 * t10138))
+  if t10171 < t10169 then
+    (⟨t10129, t10131, t10133⟩, (4368 : Int))
   else
-    (⟨t10054, t10056, t10058⟩, (4368 : Int))
+    (⟨t10117, t10119, t10121⟩, (4368 : Int))
 
 /-- extracted from the C++ template at T = Sym; 2 path(s) -/
 def Euler.nearestRotation_YZYr {α : Type} [Add α] [Sub α] [Mul α] [Div α] [LT α] [DecidableLT α] [OfNat α 281474976710656] [OfNat α 884279719003555] (angleMod : α → α) (xyzRot : V3 α) (target : V3 α) : (V3 α) :=
-  let t10013 := (target.x + (angleMod (xyzRot.x - target.x)))
-  let t10015 := (target.y + (angleMod (xyzRot.y - target.y)))
-  let t10017 := (target.z + (angleMod (xyzRot.z - target.z)))
-  let t10030 := (target.z + (angleMod ((((884279719003555 : α) / (281474976710656 : α)) + t10017) - target.z)))
-  let t10031 := (t10017 - target.z)
-  let t10032 := (t10015 - target.y)
-  let t10033 := (t10013 - target.x)
-  let t10034 := (t10030 - target.z)
-  let t10041 := (((t10033 * t10033) + (t10032 * t10032)) + (t10031 * t10031))
-  let t10092 := (target.y + (angleMod ((((884279719003555 : α) / (281474976710656 : α)) + t10015) - target.y)))
-  let t10096 := (t10092 - target.y)
-  let t10112 := (target.x + (angleMod ((((884279719003555 : α) / (281474976710656 : α)) - t10013) - target.x)))
-  let t10113 := (t10112 - target.x)
-  let t10116 := (((t10113 * t10113) + (t10096 * t10096)) + (t10034 * t10034))
-  if t10116 < t10041 then
-    ⟨t10112, t10092, t10030⟩
+  let t10076 := (target.x + (angleMod (xyzRot.x - target.x)))
+  let t10078 := (target.y + (angleMod (xyzRot.y - target.y)))
+  let t10080 := (target.z + (angleMod (xyzRot.z - target.z)))
+  let t10093 := (target.z + (angleMod ((((884279719003555 : α) / (281474976710656 : α)) + t10080) - target.z)))
+  let t10094 := (t10080 - target.z)
+  let t10095 := (t10078 - target.y)
+  let t10096 := (t10076 - target.x)
+  let t10097 := (t10093 - target.z)
+  let t10104 := (((t10096 * t10096) + (t10095 * t10095)) + (t10094 * t10094))
+  let t10155 := (target.y + (angleMod ((((884279719003555 : α) / (281474976710656 : α)) + t10078) - target.y)))
+  let t10159 := (t10155 - target.y)
+  let t10175 := (target.x + (angleMod ((((884279719003555 : α) / (281474976710656 : α)) - t10076) - target.x)))
+  let t10176 := (t10175 - target.x)
+  let t10179 := (((t10176 * t10176) + (t10159 * t10159)) + (t10097 * t10097))
+  if t10179 < t10104 then
+    ⟨t10175, t10155, t10093⟩
   else
-    ⟨t10013, t10015, t10017⟩
+    ⟨t10076, t10078, t10080⟩
 
 /-- extracted from the C++ template at T = Sym; 2 path(s) -/
 def Euler.makeNear_YZYr {α : Type} [Add α] [Sub α] [Mul α] [Div α] [LT α] [DecidableLT α] [OfNat α 281474976710656] [OfNat α 884279719003555] (angleMod : α → α) (a : V3 α) (t : V3 α) : ((V3 α) × Int) :=
-  let t10054 := (t.x + (angleMod (a.x - t.x)))
-  let t10056 := (t.y + (angleMod (a.y - t.y)))
-  let t10058 := (t.z + (angleMod (a.z - t.z)))
-  let t10066 := (t.x + (angleMod ((((884279719003555 : α) / (281474976710656 : α)) + t10054) - t.x)))
-  let t10068 := (t.y + (angleMod ((((884279719003555 : α) / (281474976710656 : α)) - t10056) - t.y)))
-  let t10070 := (t.z + (angleMod ((((884279719003555 : α) / (281474976710656 : α)) + t10058) - t.z)))
-  let t10071 := (t10058 - t.z)
-  let t10072 := (t10056 - t.y)
-  let t10073 := (t10054 - t.x)
-  let t10074 := (t10070 - t.z)
-  let t10075 := (t10068 - t.y)
-  let t10076 := (t10066 - t.x)
-  let t10118 := (((t10072 * t10072) + (t10073 * t10073)) + (t10071 * t10071))
-  let t10120 := (((t10075 * t10075) + (t10076 * t10076)) + (t10074 * t10074))
-  if t10120 < t10118 then
-    (⟨t10066, t10068, t10070⟩, (4112 : Int))
+  let t10117 := (t.x + (angleMod (a.x - t.x)))
+  let t10119 := (t.y + (angleMod (a.y - t.y)))
+  let t10121 := (t.z + (angleMod (a.z - t.z)))
+  let t10129 := (t.x + (angleMod ((((884279719003555 : α) / (281474976710656 : α)) + t10117) - t.x)))
+  let t10131 := (t.y + (angleMod ((((884279719003555 : α) / (281474976710656 : α)) - t10119) - t.y)))
+  let t10133 := (t.z + (angleMod ((((884279719003555 : α) / (281474976710656 : α)) + t10121) - t.z)))
+  let t10134 := (t10121 - t.z)
+  let t10135 := (t10119 - t.y)
+  let t10136 := (t10117 - t.x)
+  let t10137 := (t10133 - t.z)
+  let t10138 := (t10131 - t.y)
+  let t10139 := (t10129 - t.x)
+  let t10181 := (((t10135 * t10135) + (t10136 * t10136)) + (t10134 * t10134))
+  let t10183 := (((t10138 * t10138) + (t10139 * t10139)) + (t10137 * t10137))
+  if t10183 < t10181 then
+    (⟨t10129, t10131, t10133⟩, (4112 : Int))
   else
-    (⟨t10054, t10056, t10058⟩, (4112 : Int))
+    (⟨t10117, t10119, t10121⟩, (4112 : Int))
 
 /-- extracted from the C++ template at T = Sym; 2 path(s) -/
 def Euler.nearestRotation_ZYZr {α : Type} [Add α] [Sub α] [Mul α] [Div α] [LT α] [DecidableLT α] [OfNat α 281474976710656] [OfNat α 884279719003555] (angleMod : α → α) (xyzRot : V3 α) (target : V3 α) : (V3 α) :=
-  let t10013 := (target.x + (angleMod (xyzRot.x - target.x)))
-  let t10015 := (target.y + (angleMod (xyzRot.y - target.y)))
-  let t10017 := (target.z + (angleMod (xyzRot.z - target.z)))
-  let t10026 := (target.x + (angleMod ((((884279719003555 : α) / (281474976710656 : α)) + t10013) - target.x)))
-  let t10028 := (target.y + (angleMod ((((884279719003555 : α) / (281474976710656 : α)) - t10015) - target.y)))
-  let t10030 := (target.z + (angleMod ((((884279719003555 : α) / (281474976710656 : α)) + t10017) - target.z)))
-  let t10031 := (t10017 - target.z)
-  let t10032 := (t10015 - target.y)
-  let t10033 := (t10013 - target.x)
-  let t10034 := (t10030 - target.z)
-  let t10035 := (t10028 - target.y)
-  let t10036 := (t10026 - target.x)
-  let t10041 := (((t10033 * t10033) + (t10032 * t10032)) + (t10031 * t10031))
-  let t10046 := (((t10036 * t10036) + (t10035 * t10035)) + (t10034 * t10034))
-  if t10046 < t10041 then
-    ⟨t10026, t10028, t10030⟩
+  let t10076 := (target.x + (angleMod (xyzRot.x - target.x)))
+  let t10078 := (target.y + (angleMod (xyzRot.y - target.y)))
+  let t10080 := (target.z + (angleMod (xyzRot.z - target.z)))
+  let t10089 := (target.x + (angleMod ((((884279719003555 : α) / (281474976710656 : α)) + t10076) - target.x)))
+  let t10091 := (target.y + (angleMod ((((884279719003555 : α) / (281474976710656 : α)) - t10078) - target.y)))
+  let t10093 := (target.z + (angleMod ((((884279719003555 : α) / (281474976710656 : α)) + t10080) - target.z)))
+  let t10094 := (t10080 - target.z)
+  let t10095 := (t10078 - target.y)
+  let t10096 := (t10076 - target.x)
+  let t10097 := (t10093 - target.z)
+  let t10098 := (t10091 - target.y)
+  let t10099 := (t10089 - target.x)
+  let t10104 := (((t10096 * t10096) + (t10095 * t10095)) + (t10094 * t10094))
+  let t10109 := (((t10099 * t10099) + (t10098 * t10098)) + (t10097 * t10097))
+  if t10109 < t10104 then
+    ⟨t10089, t10091, t10093⟩
   else
-    ⟨t10013, t10015, t10017⟩
+    ⟨t10076, t10078, t10080⟩
 
 /-- extracted from the C++ template at T = Sym; 2 path(s) -/
 def Euler.makeNear_ZYZr {α : Type} [Add α] [Sub α] [Mul α] [Div α] [LT α] [DecidableLT α] [OfNat α 281474976710656] [OfNat α 884279719003555] (angleMod : α → α) (a : V3 α) (t : V3 α) : ((V3 α) × Int) :=
-  let t10054 := (t.x + (angleMod (a.x - t.x)))
-  let t10056 := (t.y + (angleMod (a.y - t.y)))
-  let t10058 := (t.z + (angleMod (a.z - t.z)))
-  let t10066 := (t.x + (angleMod ((((884279719003555 : α) / (281474976710656 : α)) + t10054) - t.x)))
-  let t10068 := (t.y + (angleMod ((((884279719003555 : α) / (281474976710656 : α)) - t10056) - t.y)))
-  let t10070 := (t.z + (angleMod ((((884279719003555 : α) / (281474976710656 : α)) + t10058) - t.z)))
-  let t10071 := (t10058 - t.z)
-  let t10072 := (t10056 - t.y)
-  let t10073 := (t10054 - t.x)
-  let t10074 := (t10070 - t.z)
-  let t10075 := (t10068 - t.y)
-  let t10076 := (t10066 - t.x)
-  let t10081 := (((t10073 * t10073) + (t10072 * t10072)) + (t10071 * t10071))
-  let t10086 := (((t10076 * t10076) + (t10075 * t10075)) + (t10074 * t10074))
-  if t10086 < t10081 then
-    (⟨t10066, t10068, t10070⟩, (272 : Int))
+  let t10117 := (t.x + (angleMod (a.x - t.x)))
+  let t10119 := (t.y + (angleMod (a.y - t.y)))
+  let t10121 := (t.z + (angleMod (a.z - t.z)))
+  let t10129 := (t.x + (angleMod ((((884279719003555 : α) / (281474976710656 : α)) + t10117) - t.x)))
+  let t10131 := (t.y + (angleMod ((((884279719003555 : α) / (281474976710656 : α)) - t10119) - t.y)))
+  let t10133 := (t.z + (angleMod ((((884279719003555 : α) / (281474976710656 : α)) + t10121) - t.z)))
+  let t10134 := (t10121 - t.z)
+  let t10135 := (t10119 - t.y)
+  let t10136 := (t10117 - t.x)
+  let t10137 := (t10133 - t.z)
+  let t10138 := (t10131 - t.y)
+  let t10139 := (t10129 - t.x)
+  let t10144 := (((t10136 * t10136) + (t10135 * t10135)) + (t10134 * t10134))
+  let t10149 := (((t10139 * t10139) + (t10138 * t10138)) + (t10137 * t10137))
+  if t10149 < t10144 then
+    (⟨t10129, t10131, t10133⟩, (272 : Int))
   else
-    (⟨t10054, t10056, t10058⟩, (272 : Int))
+    (⟨t10117, t10119, t10121⟩, (272 : Int))
 
 /-- extracted from the C++ template at T = Sym; 2 path(s) -/
 def Euler.nearestRotation_ZXZr {α : Type} [Add α] [Sub α] [Mul α] [Div α] [LT α] [DecidableLT α] [OfNat α 281474976710656] [OfNat α 884279719003555] (angleMod : α → α) (xyzRot : V3 α) (target : V3 α) : (V3 α) :=
-  let t10013 := (target.x + (angleMod (xyzRot.x - target.x)))
-  let t10015 := (target.y + (angleMod (xyzRot.y - target.y)))
-  let t10017 := (target.z + (angleMod (xyzRot.z - target.z)))
-  let t10026 := (target.x + (angleMod ((((884279719003555 : α) / (281474976710656 : α)) + t10013) - target.x)))
-  let t10031 := (t10017 - target.z)
-  let t10032 := (t10015 - target.y)
-  let t10033 := (t10013 - target.x)
-  let t10036 := (t10026 - target.x)
-  let t10041 := (((t10033 * t10033) + (t10032 * t10032)) + (t10031 * t10031))
-  let t10092 := (target.y + (angleMod ((((884279719003555 : α) / (281474976710656 : α)) + t10015) - target.y)))
-  let t10094 := (target.z + (angleMod ((((884279719003555 : α) / (281474976710656 : α)) - t10017) - target.z)))
-  let t10095 := (t10094 - target.z)
-  let t10096 := (t10092 - target.y)
-  let t10100 := (((t10036 * t10036) + (t10096 * t10096)) + (t10095 * t10095))
-  if t10100 < t10041 then
-    ⟨t10026, t10092, t10094⟩
+  let t10076 := (target.x + (angleMod (xyzRot.x - target.x)))
+  let t10078 := (target.y + (angleMod (xyzRot.y - target.y)))
+  let t10080 := (target.z + (angleMod (xyzRot.z - target.z)))
+  let t10089 := (target.x + (angleMod ((((884279719003555 : α) / (281474976710656 : α)) + t10076) - target.x)))
+  let t10094 := (t10080 - target.z)
+  let t10095 := (t10078 - target.y)
+  let t10096 := (t10076 - target.x)
+  let t10099 := (t10089 - target.x)
+  let t10104 := (((t10096 * t10096) + (t10095 * t10095)) + (t10094 * t10094))
+  let t10155 := (target.y + (angleMod ((((884279719003555 : α) / (281474976710656 : α)) + t10078) - target.y)))
+  let t10157 := (target.z + (angleMod ((((884279719003555 : α) / (281474976710656 : α)) - t10080) - target.z)))
+  let t10158 := (t10157 - target.z)
+  let t10159 := (t10155 - target.y)
+  let t10163 := (((t10099 * t10099) + (t10159 * t10159)) + (t10158 * t10158))
+  if t10163 < t10104 then
+    ⟨t10089, t10155, t10157⟩
   else
-    ⟨t10013, t10015, t10017⟩
+    ⟨t10076, t10078, t10080⟩
 
 /-- extracted from the C++ template at T = Sym; 2 path(s) -/
 def Euler.makeNear_ZXZr {α : Type} [Add α] [Sub α] [Mul α] [Div α] [LT α] [DecidableLT α] [OfNat α 281474976710656] [OfNat α 884279719003555] (angleMod : α → α) (a : V3 α) (t : V3 α) : ((V3 α) × Int) :=
-  let t10054 := (t.x + (angleMod (a.x - t.x)))
-  let t10056 := (t.y + (angleMod (a.y - t.y)))
-  let t10058 := (t.z + (angleMod (a.z - t.z)))
-  let t10066 := (t.x + (angleMod ((((884279719003555 : α) / (281474976710656 : α)) + t10054) - t.x)))
-  let t10068 := (t.y + (angleMod ((((884279719003555 : α) / (281474976710656 : α)) - t10056) - t.y)))
-  let t10070 := (t.z + (angleMod ((((884279719003555 : α) / (281474976710656 : α)) + t10058) - t.z)))
-  let t10071 := (t10058 - t.z)
-  let t10072 := (t10056 - t.y)
-  let t10073 := (t10054 - t.x)
-  let t10074 := (t10070 - t.z)
-  let t10075 := (t10068 - t.y)
-  let t10076 := (t10066 - t.x)
-  let t10102 := (((t10073 * t10073) + (t10071 * t10071)) + (t10072 * t10072))
-  let t10104 := (((t10076 * t10076) + (t10074 * t10074)) + (t10075 * t10075))
-  if t10104 < t10102 then
-    (⟨t10066, t10068, t10070⟩, (16 : Int))
+  let t10117 := (t.x + (angleMod (a.x - t.x)))
+  let t10119 := (t.y + (angleMod (a.y - t.y)))
+  let t10121 := (t.z + (angleMod (a.z - t.z)))
+  let t10129 := (t.x + (angleMod ((((884279719003555 : α) / (281474976710656 : α)) + t10117) - t.x)))
+  let t10131 := (t.y + (angleMod ((((884279719003555 : α) / (281474976710656 : α)) - t10119) - t.y)))
+  let t10133 := (t.z + (angleMod ((((884279719003555 : α) / (281474976710656 : α)) + t10121) - t.z)))
+  let t10134 := (t10121 - t.z)
+  let t10135 := (t10119 - t.y)
+  let t10136 := (t10117 - t.x)
+  let t10137 := (t10133 - t.z)
+  let t10138 := (t10131 - t.y)
+  let t10139 := (t10129 - t.x)
+  let t10165 := (((t10136 * t10136) + (t10134 * t10134)) + (t10135 * t10135))
+  let t10167 := (((t10139 * t10139) + (t10137 * t10137)) + (t10138 * t10138))
+  if t10167 < t10165 then
+    (⟨t10129, t10131, t10133⟩, (16 : Int))
   else
-    (⟨t10054, t10056, t10058⟩, (16 : Int))
+    (⟨t10117, t10119, t10121⟩, (16 : Int))
 
 end ImathVerif.Gen
